@@ -20,12 +20,23 @@
   silently cuts what does not fit.  For each container:
     * `K_embed`  — EVERY value: the encoding is `cutPad (header ++ child₁ ++ child₂ ++ …) Len()`, i.e. the first Len()
                    bytes of the concatenation, zero-padded to Len(); each childᵢ is what the child's own
-                   MarshalBinary() returns (`encAll`, or the named child encoder);
+                   MarshalBinary() returns (`encAll`, or the named child encoder).  Where every write is
+                   bounds-checked (Ethernet payload, IGMPv3 records/sources) success already means "nothing cut".
     * `K_intact` — under the stated decidable consistency condition (the caller-supplied header-length field agrees
                    with the children) nothing is cut and nothing is appended: `header ++ child₁ ++ child₂ ++ …`;
-    * `K_cut…`   — the condition is necessary: a concrete value where it fails and child bytes are lost
-                   (this documents the contract of the caller-supplied length fields, it is not a defect);
+    * negative   — the condition is necessary: a concrete value where it fails and child bytes are lost or phantom
+                   bytes appear (`hopByHop_cut`, `routing_cut`, `ipv4_cut_options`, `ipv4_cut_payload`,
+                   `ipv4_shifted_payload`, `ipv6_drops_unchained_header`, `ipv6_long_address_overwritten`,
+                   `ethernet_short_addr`, `groupRecord_phantom_source`, `groupRecord_v6_source_zeroed`).  These
+                   document the contract of the caller-supplied length fields; they are not defects.
     * an `example` with non-trivial values beside each implication.
+  Containers: HopByHopHeader → options; RoutingHeader → data; IGMPv3GroupRecord / IGMPv3Query → sources, aux words;
+  IGMPv3MembershipReport → records (unconditional); Ethernet → tag, payload; IPv4 → options, payload; IPv6 → extension
+  headers, payload; DHCP → options (unconditional: `append`); LLDP → TLVs (FAILS: `lldp_read_overwrites`).
+  The `…W` theorems hold for ANY pair of payload functions; the unsuffixed ones are their instances at the package's
+  interface dispatch (any payload kind, any nesting; hypothesis `SmallBuf` = not a bare Buffer above 65535 bytes, cf.
+  `ipv4_big_buffer_truncated`).  `ethernet_ipv4_intact` shows how they chain.
+  The scalar fields of the values are written `.num n` as the model's encoders match them.
 -/
 import OFV.Model.All
 import OFV.Lemmas.Size
@@ -152,6 +163,11 @@ theorem buffer_size_counterexample :
 
 example : SmallBuf (UBuffer.mk [1, 2, 3]) := by
   intro c h; cases h; decide
+
+/-- anything that is not a Buffer -/
+theorem smallBuf_of_kind (v : V) (h : v.kind ≠ "u.Buffer") : SmallBuf v := by
+  intro c hc
+  exact absurd (by rw [hc]; rfl) h
 
 /-! ### the three `util.Message` containers, for ANY payload functions -/
 
@@ -306,22 +322,1253 @@ theorem protoAnyLenD_kind (d : Nat) (v : V) (l : UInt16) (v1 : V) (h : protoAnyL
 def SizeAfter (L : V → R (UInt16 × V)) (M : V → R (Bytes × V)) (x : V) : Prop :=
   ∀ l x1 b x2, L x = .ok (l, x1) → M x1 = .ok (b, x2) → b.length = l.toNat
 
+/-- what Len() leaves behind is again not an oversized Buffer -/
+theorem smallBuf_after_len (d : Nat) (x : V) (l : UInt16) (x1 : V) (hs : SmallBuf x) (h1 : protoAnyLenD d x = .ok (l, x1)) :
+    SmallBuf x1 := by
+  intro c hc
+  have hk := protoAnyLenD_kind d x l x1 h1
+  have hkx : x.kind = "u.Buffer" := by rw [← hk, hc]; rfl
+  cases d with
+  | zero => exact absurd h1 (by simp [protoAnyLenD])
+  | succ d =>
+    have e : protoAnyLenD (d + 1) x = UBuffer.lenM x := by unfold protoAnyLenD; simp only [hkx]
+    rw [e] at h1
+    have := (Props.C13.uBuffer_pure x).1 l x1 h1
+    subst this
+    exact hs c hc
+
 /-- every payload of package protocol (at every depth), except a bare Buffer above 65535 bytes -/
 theorem protoAny_sizeAfter (d : Nat) (x : V) (hs : SmallBuf x) : SizeAfter (protoAnyLenD d) (protoAnyMarshalD d) x := by
   intro l x1 b x2 h1 h2
   have hidem := ((Rep.protoAny_childOK d).rep x).lenIdem l x1 h1
-  have hk := protoAnyLenD_kind d x l x1 h1
-  have hs1 : SmallBuf x1 := by
-    intro c hc
-    have hkx : x.kind = "u.Buffer" := by rw [← hk, hc]; rfl
-    cases d with
-    | zero => exact absurd h1 (by simp [protoAnyLenD])
-    | succ d =>
-      have e : protoAnyLenD (d + 1) x = UBuffer.lenM x := by unfold protoAnyLenD; simp only [hkx]
-      rw [e] at h1
-      have := (Props.C13.uBuffer_pure x).1 l x1 h1
-      subst this
-      exact hs c hc
-  exact protoAny_size d x1 hs1 l x1 b x2 hidem h2
+  exact protoAny_size d x1 (smallBuf_after_len d x l x1 hs h1) l x1 b x2 hidem h2
+
+/-- IPv4 stores something in Len() (IHL is forced to at least 5): also MarshalBinary() on the value Len() left behind
+    returns as many bytes as that Len() reported -/
+theorem ipv4_sizeAfter (v : V) : SizeAfter PIPv4.lenM PIPv4.marshalM v := by
+  intro l v1 b v2 h1 h2
+  exact ipv4_size v1 l v1 b v2 ((Rep.PIPv4.repeatable v).lenIdem l v1 h1) h2
+
+/-- the same for an Ethernet frame (Len() stores what the payload's Len() stores) -/
+theorem ethernet_sizeAfter (v : V) : SizeAfter PEthernet.lenM PEthernet.marshalM v := by
+  intro l v1 b v2 h1 h2
+  exact ethernet_size v1 l v1 b v2 ((Rep.PEthernet.repeatable v).lenIdem l v1 h1) h2
+
+/-- … and for an IPv6 packet -/
+theorem ipv6_sizeAfter (v : V) : SizeAfter PIPv6.lenM PIPv6.marshalM v := by
+  intro l v1 b v2 h1 h2
+  exact ipv6_size v1 l v1 b v2 ((Rep.PIPv6.repeatable v).lenIdem l v1 h1) h2
+
+/-- IHL 3 is stored as 5 by Len(): the value changes, the size statement holds before and after -/
+example : ∃ l v1 bs v2, PIPv4.lenM (.obj "p.IPv4" [.num 4, .num 3, .num 0, .num 0, .num 20, .num 0, .num 0, .num 0, .num 64, .num 1,
+      .num 0, .bytes [10, 0, 0, 1], .bytes [10, 0, 0, 2], UBuffer.mk [], .nil]) = .ok (l, v1) ∧
+    v1 = .obj "p.IPv4" [.num 4, .num 5, .num 0, .num 0, .num 20, .num 0, .num 0, .num 0, .num 64, .num 1,
+      .num 0, .bytes [10, 0, 0, 1], .bytes [10, 0, 0, 2], UBuffer.mk [], .nil] ∧
+    PIPv4.marshalM v1 = .ok (bs, v2) ∧ l = 20 ∧ bs.length = 20 :=
+  ⟨_, _, _, _, rfl, rfl, rfl, rfl, rfl⟩
+
+/-! ## Part 2 — children intact
+
+  `cutPad P L` (Lemmas/SizeProtoFill) = `P.take L ++ zeros (L - P.length)`: what a buffer of `L` zero bytes holds after
+  `P` was copied in from the start.  `encAll M xs` = the list of the encodings `M x` of the elements of `xs`. -/
+
+/-! ### HopByHopHeader → options.  Condition: 2 + Σ option sizes = 8·(HEL+1) -/
+
+/-- EVERY value: the first 8·(HEL+1) bytes of `NextHeader, HEL, option₁, option₂, …` (zero-padded), each optionᵢ being
+    exactly what `Option.MarshalBinary()` returns -/
+theorem hopByHop_embed (nh hel : Nat) (os : List V) (bs : Bytes) (v2 : V)
+    (h : PHopByHop.marshalM (.obj "p.HopByHopHeader" [.num nh, .num hel, .list os]) = .ok (bs, v2)) :
+    ∃ obs, encAll POption.marshalM os = .ok obs ∧
+      bs = cutPad ([n8 nh, n8 hel] ++ obs.flatten) (8 * ((n8 hel).toNat + 1)) := by
+  unfold PHopByHop.marshalM at h
+  obtain ⟨b, hb, h⟩ := bind_ok_inv _ _ _ h
+  obtain ⟨e, _⟩ := same_ok _ _ _ _ h
+  subst e
+  simp only [PHopByHop.bytes, PHopByHop.len, Res.bind_ok] at hb
+  obtain ⟨_, _, hb⟩ := bind_ok_inv _ _ _ hb
+  obtain ⟨ps, hps, hb⟩ := bind_ok_inv _ _ _ hb
+  obtain ⟨obs, he, hpb, ht, _⟩ := optPieces_enc os ps hps
+  refine ⟨obs, he, ?_⟩
+  have := fill_cutPad _ _ _ (by
+    intro p hp
+    simp only [List.mem_append, List.mem_cons, List.not_mem_nil, or_false] at hp
+    rcases hp with (rfl | rfl) | hp
+    · trivial
+    · trivial
+    · exact ht p hp) hb
+  rw [this, piecesBytes_append, hpb]
+  unfold Gen.protocol.HopByHopHeader.Len
+  rw [ext_len_toNat]
+  rfl
+
+/-- when the options fill the header exactly (2 + Σ sizes = 8·(HEL+1)) the encoding is the two fixed bytes followed by
+    the complete encodings of the options, in order, and nothing else -/
+theorem hopByHop_intact (nh hel : Nat) (os : List V) (bs : Bytes) (v2 : V) (obs : List Bytes)
+    (h : PHopByHop.marshalM (.obj "p.HopByHopHeader" [.num nh, .num hel, .list os]) = .ok (bs, v2))
+    (he : encAll POption.marshalM os = .ok obs)
+    (hc : 2 + obs.flatten.length = 8 * ((n8 hel).toNat + 1)) :
+    bs = [n8 nh, n8 hel] ++ obs.flatten := by
+  obtain ⟨obs', he', hbs⟩ := hopByHop_embed nh hel os bs v2 h
+  rw [he] at he'
+  cases he'
+  rw [hbs]
+  exact cutPad_eq_of_length _ _ (by simp only [List.length_append, List.length_cons, List.length_nil]; omega)
+
+/-- the same with the condition on the options' own Len(): 2 + Σ Len(optionᵢ) = 8·(HEL+1) -/
+theorem hopByHop_intact_len (nh hel : Nat) (os : List V) (bs : Bytes) (v2 : V) (ls : List UInt16)
+    (h : PHopByHop.marshalM (.obj "p.HopByHopHeader" [.num nh, .num hel, .list os]) = .ok (bs, v2))
+    (hl : lenAll POption.lenM os = .ok ls)
+    (hc : 2 + (ls.map UInt16.toNat).sum = 8 * ((n8 hel).toNat + 1)) :
+    ∃ obs, encAll POption.marshalM os = .ok obs ∧ bs = [n8 nh, n8 hel] ++ obs.flatten := by
+  obtain ⟨obs, he, _⟩ := hopByHop_embed nh hel os bs v2 h
+  obtain ⟨ls', hls', _, hsum⟩ := option_encAll_lens os obs he
+  rw [hl] at hls'
+  cases hls'
+  exact ⟨obs, he, hopByHop_intact nh hel os bs v2 obs h he (by rw [hsum]; exact hc)⟩
+
+/-- a Pad1 and a PadN option filling an 8-byte header -/
+example : ∃ bs v2 obs,
+    PHopByHop.marshalM (.obj "p.HopByHopHeader" [.num 58, .num 0, .list [.obj "p.Option" [.num 0, .num 0, .bytes []],
+      .obj "p.Option" [.num 1, .num 3, .bytes [0, 0, 0]]]]) = .ok (bs, v2) ∧
+    encAll POption.marshalM [.obj "p.Option" [.num 0, .num 0, .bytes []], .obj "p.Option" [.num 1, .num 3, .bytes [0, 0, 0]]]
+      = .ok obs ∧ 2 + obs.flatten.length = 8 * ((n8 0).toNat + 1) ∧ bs = [58, 0, 0, 1, 3, 0, 0, 0] :=
+  ⟨_, _, _, rfl, rfl, rfl, rfl⟩
+
+/-- the condition is necessary: HEL = 0 (8 bytes) with a 10-byte option — the option's last 4 bytes are not in the
+    encoding (the header-length field is the caller's) -/
+theorem hopByHop_cut :
+    ∃ v2, PHopByHop.marshalM (.obj "p.HopByHopHeader" [.num 59, .num 0, .list [.obj "p.Option" [.num 1, .num 8, .bytes [1, 2, 3, 4, 5, 6, 7, 8]]]])
+        = .ok ([59, 0, 1, 8, 1, 2, 3, 4], v2) ∧
+      POption.marshalM (.obj "p.Option" [.num 1, .num 8, .bytes [1, 2, 3, 4, 5, 6, 7, 8]])
+        = .ok ([1, 8, 1, 2, 3, 4, 5, 6, 7, 8], .obj "p.Option" [.num 1, .num 8, .bytes [1, 2, 3, 4, 5, 6, 7, 8]]) :=
+  ⟨_, rfl, rfl⟩
+
+/-! ### RoutingHeader → data.  Condition: 4 + |data| = 8·(HEL+1) -/
+
+/-- EVERY value: the first 8·(HEL+1) bytes of `NextHeader, HEL, RoutingType, SegmentsLeft, data` (zero-padded); `data` is
+    what the data Buffer's MarshalBinary() returns -/
+theorem routing_embed (nh hel rt sl : Nat) (buf : V) (bs : Bytes) (v2 : V)
+    (h : PRouting.marshalM (.obj "p.RoutingHeader" [.num nh, .num hel, .num rt, .num sl, buf]) = .ok (bs, v2)) :
+    ∃ c, UBuffer.marshalM buf = .ok (c, buf) ∧
+      bs = cutPad ([n8 nh, n8 hel, n8 rt, n8 sl] ++ c) (8 * ((n8 hel).toNat + 1)) := by
+  unfold PRouting.marshalM at h
+  obtain ⟨b, hb, h⟩ := bind_ok_inv _ _ _ h
+  obtain ⟨e, _⟩ := same_ok _ _ _ _ h
+  subst e
+  simp only [PRouting.bytes, PRouting.len, Res.bind_ok] at hb
+  obtain ⟨_, _, hb⟩ := bind_ok_inv _ _ _ hb
+  obtain ⟨c, hc, hb⟩ := bind_ok_inv _ _ _ hb
+  refine ⟨c, by simp [UBuffer.marshalM, hc, same], ?_⟩
+  have := fill_cutPad _ _ _ (by
+    intro p hp
+    simp only [List.mem_cons, List.not_mem_nil, or_false] at hp
+    rcases hp with rfl | rfl | rfl | rfl | rfl <;> trivial) hb
+  rw [this]
+  unfold Gen.protocol.RoutingHeader.Len
+  rw [ext_len_toNat]
+  simp [piecesBytes, Piece.bytes, pU8, pCopy]
+
+/-- 4 + |data| = 8·(HEL+1) ⇒ the four fixed bytes followed by the complete data -/
+theorem routing_intact (nh hel rt sl : Nat) (buf : V) (bs : Bytes) (v2 : V) (c : Bytes) (buf' : V)
+    (h : PRouting.marshalM (.obj "p.RoutingHeader" [.num nh, .num hel, .num rt, .num sl, buf]) = .ok (bs, v2))
+    (hb : UBuffer.marshalM buf = .ok (c, buf'))
+    (hc : 4 + c.length = 8 * ((n8 hel).toNat + 1)) :
+    bs = [n8 nh, n8 hel, n8 rt, n8 sl] ++ c := by
+  obtain ⟨c', hc', hbs⟩ := routing_embed nh hel rt sl buf bs v2 h
+  rw [hb] at hc'
+  cases hc'
+  rw [hbs]
+  exact cutPad_eq_of_length _ _ (by simp only [List.length_append, List.length_cons, List.length_nil]; omega)
+
+
+/-- 260 data bytes -/
+def rtData : Bytes := (List.range 260).map UInt8.ofNat
+
+/-- a routing header of 264 bytes (HEL = 32): the hypotheses are satisfiable and the encoding is the 4 fixed bytes
+    followed by all 260 data bytes -/
+example : (PRouting.marshalM (.obj "p.RoutingHeader" [.num 6, .num 32, .num 0, .num 2, UBuffer.mk rtData])).isOk = true ∧
+    ∀ bs v2, PRouting.marshalM (.obj "p.RoutingHeader" [.num 6, .num 32, .num 0, .num 2, UBuffer.mk rtData]) = .ok (bs, v2) →
+      bs = [6, 32, 0, 2] ++ rtData :=
+  ⟨by decide +kernel, fun bs v2 h => routing_intact 6 32 0 2 _ bs v2 rtData _ h rfl (by decide +kernel)⟩
+
+/-- the condition is necessary: HEL = 0 (8 bytes) with 12 data bytes — the last 8 data bytes are not in the encoding -/
+theorem routing_cut :
+    ∃ v2, PRouting.marshalM (.obj "p.RoutingHeader" [.num 6, .num 0, .num 0, .num 1, UBuffer.mk [1, 2, 3, 4, 5, 6, 7, 8, 9, 10, 11, 12]])
+      = .ok ([6, 0, 0, 1, 1, 2, 3, 4], v2) := ⟨_, rfl⟩
+
+/-! ### IGMPv3GroupRecord → sources, auxiliary data.  Condition: NumberOfSources = |sources|, AuxDataLen = |aux words| -/
+
+/-- EVERY value: the fixed 8 bytes, every source address (through To4(), in a 4-byte window), every auxiliary word, then
+    zeros up to `8 + 4·AuxDataLen + 4·NumberOfSources` (mod 2^16).  All writes are fixed-width, so success means
+    everything fitted: nothing is ever cut. -/
+theorem groupRecord_embed (ty aux ns : Nat) (mc : Bytes) (srcs auxd : List V) (bs : Bytes) (v2 : V)
+    (h : PIGMPv3GroupRecord.marshalM (.obj "p.IGMPv3GroupRecord" [.num ty, .num aux, .num ns, .bytes mc, .list srcs, .list auxd])
+      = .ok (bs, v2)) :
+    ∃ ips, pIpList srcs = .ok ips ∧
+      8 + 4 * srcs.length + 4 * auxd.length ≤ (8 + 4 * (n8 aux).toNat + 4 * (n16 ns).toNat) % 65536 ∧
+      bs = groupRecordBody ty aux ns mc ips auxd
+        ++ zeros ((8 + 4 * (n8 aux).toNat + 4 * (n16 ns).toNat) % 65536 - (8 + 4 * srcs.length + 4 * auxd.length)) := by
+  unfold PIGMPv3GroupRecord.marshalM at h
+  obtain ⟨b, hb, h⟩ := bind_ok_inv _ _ _ h
+  obtain ⟨e, _⟩ := same_ok _ _ _ _ h
+  subst e
+  simp only [PIGMPv3GroupRecord.bytes, PIGMPv3GroupRecord.len, Res.bind_ok] at hb
+  obtain ⟨ips, hips, hb⟩ := bind_ok_inv _ _ _ hb
+  have hil := pIpList_length srcs ips hips
+  refine ⟨ips, hips, ?_⟩
+  rw [grouprec_len_toNat] at hb
+  have hputs : ∀ p ∈ [pU8 ty, pU8 aux, pU16 ns, pCopyIn 4 (pIpTo4 mc)] ++ ips.map (fun ip => pCopyIn 4 (pIpTo4 ip))
+      ++ auxd.map (fun d => pU32 d.asNat), ∃ bs, p = .put bs := by
+    intro p hp
+    simp only [List.mem_append, List.mem_cons, List.not_mem_nil, or_false, List.mem_map] at hp
+    rcases hp with ((rfl | rfl | rfl | rfl) | ⟨ip, _, rfl⟩) | ⟨d, _, rfl⟩ <;> exact ⟨_, rfl⟩
+  have hfit := fill_puts_fit _ _ _ hputs hb
+  have htight : ∀ p ∈ [pU8 ty, pU8 aux, pU16 ns, pCopyIn 4 (pIpTo4 mc)] ++ ips.map (fun ip => pCopyIn 4 (pIpTo4 ip))
+      ++ auxd.map (fun d => pU32 d.asNat), p.Tight := by
+    intro p hp
+    obtain ⟨bs, rfl⟩ := hputs p hp
+    trivial
+  have hbytes : piecesBytes ([pU8 ty, pU8 aux, pU16 ns, pCopyIn 4 (pIpTo4 mc)] ++ ips.map (fun ip => pCopyIn 4 (pIpTo4 ip))
+      ++ auxd.map (fun d => pU32 d.asNat)) = groupRecordBody ty aux ns mc ips auxd := by
+    unfold groupRecordBody
+    simp [piecesBytes, Piece.bytes, pU8, pU16, pU32, pCopyIn, List.map_map, Function.comp_def]
+  have hlen := piecesLen_eq_bytes _ htight
+  rw [hbytes, groupRecordBody_length, hil] at hlen
+  rw [hlen] at hfit
+  refine ⟨hfit, ?_⟩
+  have := fill_take_le _ _ _ htight hb (by rw [hbytes, groupRecordBody_length, hil]; exact hfit)
+  rw [this, hbytes, groupRecordBody_length, hil]
+
+/-- counts equal list lengths ⇒ nothing appended either -/
+theorem groupRecord_intact (ty aux ns : Nat) (mc : Bytes) (srcs auxd : List V) (bs : Bytes) (v2 : V)
+    (h : PIGMPv3GroupRecord.marshalM (.obj "p.IGMPv3GroupRecord" [.num ty, .num aux, .num ns, .bytes mc, .list srcs, .list auxd])
+      = .ok (bs, v2))
+    (hns : srcs.length = (n16 ns).toNat) (haux : auxd.length = (n8 aux).toNat) :
+    ∃ ips, pIpList srcs = .ok ips ∧ bs = groupRecordBody ty aux ns mc ips auxd := by
+  obtain ⟨ips, hips, hfit, hbs⟩ := groupRecord_embed ty aux ns mc srcs auxd bs v2 h
+  refine ⟨ips, hips, ?_⟩
+  rw [hbs]
+  have : (8 + 4 * (n8 aux).toNat + 4 * (n16 ns).toNat) % 65536 - (8 + 4 * srcs.length + 4 * auxd.length) = 0 := by omega
+  rw [this]; simp [zeros]
+
+/-- … and with 4-byte addresses the body is the plain concatenation of the parts -/
+theorem groupRecord_intact_v4 (ty aux ns : Nat) (mc : Bytes) (srcs auxd : List V) (bs : Bytes) (v2 : V)
+    (h : PIGMPv3GroupRecord.marshalM (.obj "p.IGMPv3GroupRecord" [.num ty, .num aux, .num ns, .bytes mc, .list srcs, .list auxd])
+      = .ok (bs, v2))
+    (hns : srcs.length = (n16 ns).toNat) (haux : auxd.length = (n8 aux).toNat) (hmc : mc.length = 4)
+    (hv4 : ∀ ips, pIpList srcs = .ok ips → ∀ ip ∈ ips, ip.length = 4) :
+    ∃ ips, pIpList srcs = .ok ips ∧
+      bs = [n8 ty, n8 aux] ++ be16 (n16 ns) ++ mc ++ ips.flatten ++ (auxd.map (fun d => be32 (n32 d.asNat))).flatten := by
+  obtain ⟨ips, hips, hbs⟩ := groupRecord_intact ty aux ns mc srcs auxd bs v2 h hns haux
+  exact ⟨ips, hips, by rw [hbs, groupRecordBody_v4 ty aux ns mc ips auxd hmc (hv4 ips hips)]⟩
+
+/-- two sources, one auxiliary word -/
+example : ∃ bs v2, PIGMPv3GroupRecord.marshalM (.obj "p.IGMPv3GroupRecord" [.num 1, .num 1, .num 2, .bytes [224, 0, 0, 9],
+      .list [.bytes [10, 0, 0, 1], .bytes [10, 0, 0, 2]], .list [.num 0xdeadbeef]]) = .ok (bs, v2) ∧
+    [V.bytes [10, 0, 0, 1], V.bytes [10, 0, 0, 2]].length = (n16 2).toNat ∧ [V.num 0xdeadbeef].length = (n8 1).toNat ∧
+    bs = [1, 1, 0, 2, 224, 0, 0, 9, 10, 0, 0, 1, 10, 0, 0, 2, 0xde, 0xad, 0xbe, 0xef] :=
+  ⟨_, _, rfl, rfl, rfl, rfl⟩
+
+/-- the condition is necessary: NumberOfSources = 2 with one source — 4 zero bytes (a phantom source 0.0.0.0) follow -/
+theorem groupRecord_phantom_source :
+    ∃ v2, PIGMPv3GroupRecord.marshalM (.obj "p.IGMPv3GroupRecord" [.num 1, .num 0, .num 2, .bytes [224, 0, 0, 9],
+      .list [.bytes [10, 0, 0, 1]], .list []]) = .ok ([1, 0, 0, 2, 224, 0, 0, 9, 10, 0, 0, 1, 0, 0, 0, 0], v2) := ⟨_, rfl⟩
+
+/-- a source that is not an IPv4 address (To4() = nil) is silently encoded as 0.0.0.0 -/
+theorem groupRecord_v6_source_zeroed :
+    ∃ v2, PIGMPv3GroupRecord.marshalM (.obj "p.IGMPv3GroupRecord" [.num 1, .num 0, .num 1, .bytes [224, 0, 0, 9],
+      .list [.bytes [0x20, 1, 0xd, 0xb8, 0, 0, 0, 0, 0, 0, 0, 0, 0, 0, 0, 1]], .list []])
+      = .ok ([1, 0, 0, 1, 224, 0, 0, 9, 0, 0, 0, 0], v2) := ⟨_, rfl⟩
+
+/-! ### IGMPv3Query → sources.  Condition: NumberOfSources = |sources| -/
+
+/-- EVERY value: the fixed 12 bytes, every source address (through To4(), in a 4-byte window), then zeros up to
+    `12 + 4·NumberOfSources` (mod 2^16).  All writes are fixed-width: success means everything fitted. -/
+theorem igmpv3Query_embed (ty mrt cs : Nat) (g : Bytes) (rsv s rv it ns : Nat) (srcs : List V) (bs : Bytes) (v2 : V)
+    (h : PIGMPv3Query.marshalM (.obj "p.IGMPv3Query" [.num ty, .num mrt, .num cs, .bytes g, .num rsv, .num s, .num rv, .num it,
+      .num ns, .list srcs]) = .ok (bs, v2)) :
+    ∃ ips, pIpList srcs = .ok ips ∧ 12 + 4 * srcs.length ≤ (12 + 4 * (n16 ns).toNat) % 65536 ∧
+      bs = [n8 ty, n8 mrt] ++ be16 (n16 cs) ++ pFitTo 4 (pIpTo4 g) ++ [PIGMPv3Query.packSQRV (s != 0) (n8 rv), n8 it]
+        ++ be16 (n16 ns) ++ (ips.map (fun ip => pFitTo 4 (pIpTo4 ip))).flatten
+        ++ zeros ((12 + 4 * (n16 ns).toNat) % 65536 - (12 + 4 * srcs.length)) := by
+  simp only [PIGMPv3Query.marshalM, PIGMPv3Query.len, Res.bind_ok] at h
+  obtain ⟨ips, hips, h⟩ := bind_ok_inv _ _ _ h
+  obtain ⟨out, hout, h⟩ := bind_ok_inv _ _ _ h
+  obtain ⟨e, _⟩ := same_ok _ _ _ _ h
+  subst e
+  have hil := pIpList_length srcs ips hips
+  refine ⟨ips, hips, ?_⟩
+  have hL : ∀ q : Gen.protocol.IGMPv3Query, q.Len.toNat = (12 + 4 * q.NumberOfSources.toNat) % 65536 := by
+    intro q
+    unfold Gen.protocol.IGMPv3Query.Len
+    have := q.NumberOfSources.toNat_lt
+    simp only [UInt16.toNat_mul, UInt16.toNat_add]
+    show (12 + q.NumberOfSources.toNat * 4 % 2 ^ 16) % 2 ^ 16 = _
+    omega
+  rw [hL] at hout
+  dsimp only at hout
+  have hputs : ∀ p ∈ [pU8 ty, pU8 mrt, pU16 cs, pCopyIn 4 (pIpTo4 g), .put [PIGMPv3Query.packSQRV (s != 0) (n8 rv)], pU8 it,
+      pU16 ns] ++ ips.map (fun ip => pCopyIn 4 (pIpTo4 ip)), ∃ bs, p = .put bs := by
+    intro p hp
+    simp only [List.mem_append, List.mem_cons, List.not_mem_nil, or_false, List.mem_map] at hp
+    rcases hp with (rfl | rfl | rfl | rfl | rfl | rfl | rfl) | ⟨ip, _, rfl⟩ <;> exact ⟨_, rfl⟩
+  have hfit := fill_puts_fit _ _ _ hputs hout
+  have htight : ∀ p ∈ [pU8 ty, pU8 mrt, pU16 cs, pCopyIn 4 (pIpTo4 g), .put [PIGMPv3Query.packSQRV (s != 0) (n8 rv)], pU8 it,
+      pU16 ns] ++ ips.map (fun ip => pCopyIn 4 (pIpTo4 ip)), p.Tight := by
+    intro p hp
+    obtain ⟨bs, rfl⟩ := hputs p hp
+    trivial
+  have hbytes : piecesBytes ([pU8 ty, pU8 mrt, pU16 cs, pCopyIn 4 (pIpTo4 g), .put [PIGMPv3Query.packSQRV (s != 0) (n8 rv)],
+      pU8 it, pU16 ns] ++ ips.map (fun ip => pCopyIn 4 (pIpTo4 ip)))
+      = [n8 ty, n8 mrt] ++ be16 (n16 cs) ++ pFitTo 4 (pIpTo4 g) ++ [PIGMPv3Query.packSQRV (s != 0) (n8 rv), n8 it]
+        ++ be16 (n16 ns) ++ (ips.map (fun ip => pFitTo 4 (pIpTo4 ip))).flatten := by
+    simp [piecesBytes, Piece.bytes, pU8, pU16, pCopyIn, List.map_map, Function.comp_def]
+  have hblen : ([n8 ty, n8 mrt] ++ be16 (n16 cs) ++ pFitTo 4 (pIpTo4 g) ++ [PIGMPv3Query.packSQRV (s != 0) (n8 rv), n8 it]
+        ++ be16 (n16 ns) ++ (ips.map (fun ip => pFitTo 4 (pIpTo4 ip))).flatten).length = 12 + 4 * srcs.length := by
+    simp only [List.length_append, List.length_cons, List.length_nil, be16_length, pFitTo_length]
+    rw [flatten_map_const_length _ 4 ips (fun x _ => pFitTo_length 4 _), hil]
+  have hlen := piecesLen_eq_bytes _ htight
+  rw [hbytes, hblen] at hlen
+  rw [hlen] at hfit
+  refine ⟨hfit, ?_⟩
+  have := fill_take_le _ _ _ htight hout (by rw [hbytes, hblen]; exact hfit)
+  rw [this, hbytes, hblen]
+
+/-- NumberOfSources = |sources| ⇒ nothing appended; with 4-byte addresses the addresses themselves -/
+theorem igmpv3Query_intact (ty mrt cs : Nat) (g : Bytes) (rsv s rv it ns : Nat) (srcs : List V) (bs : Bytes) (v2 : V)
+    (h : PIGMPv3Query.marshalM (.obj "p.IGMPv3Query" [.num ty, .num mrt, .num cs, .bytes g, .num rsv, .num s, .num rv, .num it,
+      .num ns, .list srcs]) = .ok (bs, v2))
+    (hns : srcs.length = (n16 ns).toNat) (hg : g.length = 4)
+    (hv4 : ∀ ips, pIpList srcs = .ok ips → ∀ ip ∈ ips, ip.length = 4) :
+    ∃ ips, pIpList srcs = .ok ips ∧
+      bs = [n8 ty, n8 mrt] ++ be16 (n16 cs) ++ g ++ [PIGMPv3Query.packSQRV (s != 0) (n8 rv), n8 it]
+        ++ be16 (n16 ns) ++ ips.flatten := by
+  obtain ⟨ips, hips, hfit, hbs⟩ := igmpv3Query_embed ty mrt cs g rsv s rv it ns srcs bs v2 h
+  refine ⟨ips, hips, ?_⟩
+  have hz : (12 + 4 * (n16 ns).toNat) % 65536 - (12 + 4 * srcs.length) = 0 := by omega
+  rw [hbs, hz, pIpTo4_of_len4 g hg, pFitTo_exact 4 g hg,
+    map_id_of_forall (fun ip => pFitTo 4 (pIpTo4 ip)) ips (fun ip hip => by
+      rw [pIpTo4_of_len4 ip (hv4 ips hips ip hip), pFitTo_exact 4 ip (hv4 ips hips ip hip)])]
+  simp [zeros]
+
+/-- a query with two sources -/
+example : ∃ bs v2, PIGMPv3Query.marshalM (.obj "p.IGMPv3Query" [.num 0x11, .num 100, .num 0, .bytes [224, 0, 0, 9], .num 0, .num 1,
+      .num 2, .num 125, .num 2, .list [.bytes [10, 0, 0, 1], .bytes [10, 0, 0, 2]]]) = .ok (bs, v2) ∧
+    bs = [0x11, 100, 0, 0, 224, 0, 0, 9, 0x0a, 125, 0, 2, 10, 0, 0, 1, 10, 0, 0, 2] :=
+  ⟨_, _, rfl, rfl⟩
+
+/-! ### IGMPv3MembershipReport → group records.  No condition -/
+
+/-- EVERY value: the 8 fixed bytes followed by the complete encoding of every group record, in order, and nothing else.
+    (A 16-bit wrap of the size sum cannot go unnoticed: the last record would start outside the buffer and the encoder
+    panics.)  `NumberOfGroups` is written as supplied; the record loop does not use it. -/
+theorem membershipReport_embed (ty : Nat) (r1 : V) (cs : Nat) (r2 : V) (ng : Nat) (rs : List V) (bs : Bytes) (v2 : V)
+    (h : PIGMPv3MembershipReport.marshalM (.obj "p.IGMPv3MembershipReport" [.num ty, r1, .num cs, r2, .num ng, .list rs])
+      = .ok (bs, v2)) :
+    ∃ rbs, encAll PIGMPv3GroupRecord.marshalM rs = .ok rbs ∧
+      bs = [n8 ty, 0] ++ be16 (n16 cs) ++ [0, 0] ++ be16 (n16 ng) ++ rbs.flatten := by
+  simp only [PIGMPv3MembershipReport.marshalM, PIGMPv3MembershipReport.len] at h
+  obtain ⟨l, hl, h⟩ := bind_ok_inv _ _ _ h
+  obtain ⟨ls, hls, hl⟩ := bind_ok_inv _ _ _ hl
+  cases hl
+  obtain ⟨_, _, h⟩ := bind_ok_inv _ _ _ h
+  obtain ⟨ps, hps, h⟩ := bind_ok_inv _ _ _ h
+  obtain ⟨out, hout, h⟩ := bind_ok_inv _ _ _ h
+  obtain ⟨e, _⟩ := same_ok _ _ _ _ h
+  subst e
+  obtain ⟨rbs, ls', he, hls', hpb, ht, hadv, hns⟩ := recPieces_enc rs ps hps
+  rw [hls] at hls'
+  cases hls'
+  refine ⟨rbs, he, ?_⟩
+  have htight : ∀ p ∈ [pU8 ty, pSkip 1, pU16 cs, pSkip 2, pU16 ng] ++ ps, p.Tight := by
+    intro p hp
+    simp only [List.mem_append, List.mem_cons, List.not_mem_nil, or_false] at hp
+    rcases hp with (rfl | rfl | rfl | rfl | rfl) | hp
+    all_goals first | trivial | exact ht p hp
+  have hL : ((8 : UInt16) + sum16 ls).toNat = (8 + (ls.map UInt16.toNat).sum) % 65536 := by
+    rw [UInt16.toNat_add, sum16_toNat_mod]
+    show (8 + _ % 65536) % 2 ^ 16 = _
+    omega
+  have hplen : piecesLen ([pU8 ty, pSkip 1, pU16 cs, pSkip 2, pU16 ng] ++ ps) = 8 + (ls.map UInt16.toNat).sum := by
+    rw [piecesLen_append]
+    have : piecesLen ps = (ls.map UInt16.toNat).sum := by unfold piecesLen; rw [hadv]
+    rw [this]; rfl
+  -- no 16-bit wrap: the last record started inside the buffer
+  have hnowrap : 8 + (ls.map UInt16.toNat).sum < 65536 := by
+    rcases List.eq_nil_or_concat ps with hnil | ⟨ps0, q, hq⟩
+    · subst hnil
+      have : ls.map UInt16.toNat = [] := by rw [← hadv]; rfl
+      rw [this]; decide
+    · rw [List.concat_eq_append] at hq
+      subst hq
+      have hstart := fill_start_le _ ([pU8 ty, pSkip 1, pU16 cs, pSkip 2, pU16 ng] ++ ps0) q [] bs
+        (by rw [← List.append_assoc] at hout; exact hout) (hns q (by simp))
+      rw [hL, piecesLen_append] at hstart
+      have hsum : (ls.map UInt16.toNat).sum = piecesLen ps0 + q.adv := by
+        rw [← hadv]; simp [piecesLen]
+      -- the last advance is a uint16
+      have hq16 : q.adv < 65536 := by
+        have hmem : q.adv ∈ ls.map UInt16.toNat := by rw [← hadv]; simp
+        simp only [List.mem_map] at hmem
+        obtain ⟨x, _, hx⟩ := hmem
+        rw [← hx]; exact x.toNat_lt
+      have h8 : piecesLen [pU8 ty, pSkip 1, pU16 cs, pSkip 2, pU16 ng] = 8 := rfl
+      rw [h8] at hstart
+      omega
+  have hbytes : piecesBytes ([pU8 ty, pSkip 1, pU16 cs, pSkip 2, pU16 ng] ++ ps)
+      = [n8 ty, 0] ++ be16 (n16 cs) ++ [0, 0] ++ be16 (n16 ng) ++ rbs.flatten := by
+    rw [piecesBytes_append, hpb]
+    simp [piecesBytes, Piece.bytes, pU8, pU16, pSkip, zeros]
+  have := fill_take_exact _ _ _ htight hout (by
+    rw [← piecesLen_eq_bytes _ htight, hplen, hL]; omega)
+  rw [this, hbytes]
+
+/-- a report with two records (one of them with a source) -/
+example : ∃ bs v2 rbs, PIGMPv3MembershipReport.marshalM (.obj "p.IGMPv3MembershipReport" [.num 0x22, .num 0, .num 0, .num 0, .num 2,
+      .list [.obj "p.IGMPv3GroupRecord" [.num 1, .num 0, .num 1, .bytes [224, 0, 0, 9], .list [.bytes [10, 0, 0, 1]], .list []],
+        .obj "p.IGMPv3GroupRecord" [.num 2, .num 0, .num 0, .bytes [224, 0, 0, 10], .list [], .list []]]]) = .ok (bs, v2) ∧
+    encAll PIGMPv3GroupRecord.marshalM
+      [.obj "p.IGMPv3GroupRecord" [.num 1, .num 0, .num 1, .bytes [224, 0, 0, 9], .list [.bytes [10, 0, 0, 1]], .list []],
+        .obj "p.IGMPv3GroupRecord" [.num 2, .num 0, .num 0, .bytes [224, 0, 0, 10], .list [], .list []]] = .ok rbs ∧
+    bs = [0x22, 0, 0, 0, 0, 0, 0, 2] ++ rbs.flatten ∧ bs.length = 28 :=
+  ⟨_, _, _, rfl, rfl, rfl, rfl⟩
+
+/-! ### the payload interface never returns a nil value -/
+
+/-- Len() through the interface never hands back a nil value (a nil payload makes it fail) -/
+theorem protoAny_nonNil (d : Nat) : ∀ x l x1, protoAnyLenD d x = .ok (l, x1) → x1.isNil = false :=
+  fun _ _ _ h => Rep.V.isNil_false_of_ne ((Rep.protoAny_childOK d).len_ne_nil h)
+
+/-! ### Ethernet → payload.  Condition: 6-byte addresses -/
+
+/-- the VLAN tag of a frame: the tag's own encoding when the VLAN id is not 0, nothing otherwise -/
+def EthTag (vlan : V) (vb : Bytes) : Prop :=
+  if PVLAN.vid vlan ≠ 0 then PVLAN.marshalM vlan = .ok (vb, vlan) else vb = []
+
+/-- the fixed part of a frame is 14 bytes, 18 with the tag — the `base` that Ethernet.Len() starts from -/
+theorem ethTag_length (vlan : V) (vb : Bytes) (h : EthTag vlan vb) :
+    14 + vb.length = (Rep.PEthernet.base vlan).toNat := by
+  unfold EthTag at h
+  unfold Rep.PEthernet.base
+  split at h
+  · rename_i ht
+    simp only [PVLAN.marshalM] at h
+    obtain ⟨b, hb, h⟩ := bind_ok_inv _ _ _ h
+    obtain ⟨e, _⟩ := same_ok _ _ _ _ h
+    subst e
+    rw [PVLAN.bytes_length _ _ hb, if_pos ht]; rfl
+  · rename_i ht
+    subst h
+    rw [if_neg ht]; rfl
+
+/-- EVERY value with a payload, ANY payload functions: destination, source, the VLAN tag's own encoding (when the VLAN id is
+    not 0), ethertype, then the COMPLETE payload encoding (what MarshalBinary() returns on the payload Len() left behind),
+    then zeros up to Len().  The payload is written with a bounds-checked slice expression, so it is never cut. -/
+theorem ethernet_embedW (L : V → R (UInt16 × V)) (M : V → R (Bytes × V)) (del : V) (dst src : Bytes) (vlan : V) (et : Nat)
+    (dat : V) (bs : Bytes) (v2 : V)
+    (h : PEthernet.marshalW L M (.obj "p.Ethernet" [del, .bytes dst, .bytes src, vlan, .num et, dat]) = .ok (bs, v2))
+    (hn : dat.isNil = false) (hnn : ∀ x l x1, L x = .ok (l, x1) → x1.isNil = false) :
+    ∃ lc dat1 b dat2 vb, L dat = .ok (lc, dat1) ∧ M dat1 = .ok (b, dat2) ∧ EthTag vlan vb ∧
+      (dst ++ src ++ vb ++ be16 (n16 et) ++ b).length ≤ (Rep.PEthernet.base vlan + lc).toNat ∧
+      bs = dst ++ src ++ vb ++ be16 (n16 et) ++ b
+        ++ zeros ((Rep.PEthernet.base vlan + lc).toNat - (dst ++ src ++ vb ++ be16 (n16 et) ++ b).length) := by
+  unfold PEthernet.marshalW at h
+  obtain ⟨⟨l, v1⟩, hlen, h⟩ := bind_ok_inv _ _ _ h
+  rw [Rep.PEthernet.lenW_obj L _ _ _ _ _ _ hn] at hlen
+  obtain ⟨⟨lc, dat1⟩, hL, hlen⟩ := bind_ok_inv _ _ _ hlen
+  cases hlen
+  have hn1 := hnn dat lc dat1 hL
+  simp only at h
+  -- both branches end the same way
+  have key : ∀ (vb : Bytes), EthTag vlan vb → ∀ pre : List Piece, piecesBytes pre = dst ++ src ++ vb ++ be16 (n16 et) →
+      (∀ p ∈ pre, p.Tight) →
+      ((fill (Rep.PEthernet.base vlan + lc).toNat pre >>= fun buf =>
+        if dat1.isNil = true then .ok (buf, V.obj "p.Ethernet" [del, .bytes dst, .bytes src, vlan, .num et, dat1])
+        else M dat1 >>= fun r => fillFrom buf (piecesLen pre) [.put r.1] >>= fun out =>
+          .ok (out, V.obj "p.Ethernet" [del, .bytes dst, .bytes src, vlan, .num et, r.2])) = Res.ok (bs, v2)) →
+      ∃ lc' dat1' b dat2 vb, L dat = .ok (lc', dat1') ∧ M dat1' = .ok (b, dat2) ∧ EthTag vlan vb ∧
+        (dst ++ src ++ vb ++ be16 (n16 et) ++ b).length ≤ (Rep.PEthernet.base vlan + lc').toNat ∧
+        bs = dst ++ src ++ vb ++ be16 (n16 et) ++ b
+          ++ zeros ((Rep.PEthernet.base vlan + lc').toNat - (dst ++ src ++ vb ++ be16 (n16 et) ++ b).length) := by
+    intro vb hvb pre hpre htight hk
+    obtain ⟨buf, hbuf, hk⟩ := bind_ok_inv _ _ _ hk
+    rw [if_neg (by simp [hn1])] at hk
+    obtain ⟨⟨b, dat2⟩, hM, hk⟩ := bind_ok_inv _ _ _ hk
+    obtain ⟨out, hout, hk⟩ := bind_ok_inv _ _ _ hk
+    cases hk
+    have hall := fill_then _ _ _ _ _ hbuf hout
+    have hfits := fill_put_fits _ pre b [] _ hall
+    have htight' : ∀ p ∈ pre ++ [Piece.put b], p.Tight := by
+      intro p hp
+      simp only [List.mem_append, List.mem_cons, List.not_mem_nil, or_false] at hp
+      rcases hp with hp | rfl
+      · exact htight p hp
+      · trivial
+    have hpb : piecesBytes (pre ++ [Piece.put b]) = dst ++ src ++ vb ++ be16 (n16 et) ++ b := by
+      rw [piecesBytes_append, hpre]; simp [piecesBytes, Piece.bytes]
+    have hlenb : (dst ++ src ++ vb ++ be16 (n16 et) ++ b).length ≤ (Rep.PEthernet.base vlan + lc).toNat := by
+      rw [← hpb, ← piecesLen_eq_bytes _ htight', piecesLen_append]
+      simpa [piecesLen, Piece.adv] using hfits
+    refine ⟨lc, dat1, b, dat2, vb, hL, hM, hvb, hlenb, ?_⟩
+    have := fill_take_le _ _ _ htight' hall (by rw [hpb]; exact hlenb)
+    rw [this, hpb]
+  have hbase : (if PVLAN.vid vlan ≠ 0 then (12 : UInt16) + 4 else 12) + 2 + lc = Rep.PEthernet.base vlan + lc := rfl
+  by_cases ht : PVLAN.vid vlan ≠ 0
+  · rw [if_pos ht] at h
+    obtain ⟨vb, hvb, h⟩ := bind_ok_inv _ _ _ h
+    refine key vb (by unfold EthTag; rw [if_pos ht]; simp [PVLAN.marshalM, hvb, same])
+      ([pCopy dst, pCopy src] ++ (if PVLAN.vid vlan ≠ 0 then [pCopy vb] else []) ++ [pU16 et]) ?_ ?_ h
+    · rw [if_pos ht]; simp [piecesBytes, Piece.bytes, pCopy, pU16]
+    · intro p hp
+      rw [if_pos ht] at hp
+      simp only [List.mem_append, List.mem_cons, List.not_mem_nil, or_false] at hp
+      rcases hp with ((rfl | rfl) | rfl) | rfl <;> trivial
+  · rw [if_neg ht] at h
+    refine key [] (by unfold EthTag; rw [if_neg ht])
+      ([pCopy dst, pCopy src] ++ (if PVLAN.vid vlan ≠ 0 then [pCopy []] else []) ++ [pU16 et]) ?_ ?_ h
+    · rw [if_neg ht]; simp [piecesBytes, Piece.bytes, pCopy, pU16]
+    · intro p hp
+      rw [if_neg ht] at hp
+      simp only [List.mem_append, List.mem_cons, List.not_mem_nil, or_false, List.append_nil] at hp
+      rcases hp with (rfl | rfl) | rfl <;> trivial
+
+/-- 6-byte addresses and a payload whose encoding has the size it reports ⇒ header ++ payload, nothing else -/
+theorem ethernet_intactW (L : V → R (UInt16 × V)) (M : V → R (Bytes × V)) (del : V) (dst src : Bytes) (vlan : V) (et : Nat)
+    (dat : V) (bs : Bytes) (v2 : V)
+    (h : PEthernet.marshalW L M (.obj "p.Ethernet" [del, .bytes dst, .bytes src, vlan, .num et, dat]) = .ok (bs, v2))
+    (hn : dat.isNil = false) (hnn : ∀ x l x1, L x = .ok (l, x1) → x1.isNil = false)
+    (hdst : dst.length = 6) (hsrc : src.length = 6) (hc : SizeAfter L M dat) :
+    ∃ lc dat1 b dat2 vb, L dat = .ok (lc, dat1) ∧ M dat1 = .ok (b, dat2) ∧ EthTag vlan vb ∧
+      bs = dst ++ src ++ vb ++ be16 (n16 et) ++ b := by
+  obtain ⟨lc, dat1, b, dat2, vb, hL, hM, hvb, hfit, hbs⟩ := ethernet_embedW L M del dst src vlan et dat bs v2 h hn hnn
+  refine ⟨lc, dat1, b, dat2, vb, hL, hM, hvb, ?_⟩
+  have hb := hc lc dat1 b dat2 hL hM
+  have htag := ethTag_length vlan vb hvb
+  have hlen : (dst ++ src ++ vb ++ be16 (n16 et) ++ b).length = 14 + vb.length + lc.toNat := by
+    simp only [List.length_append, be16_length, hdst, hsrc, hb]; omega
+  rw [hlen] at hfit hbs
+  rw [UInt16.toNat_add] at hfit hbs
+  have h1 := (Rep.PEthernet.base vlan).toNat_lt
+  have h2 := lc.toNat_lt
+  have : ((Rep.PEthernet.base vlan).toNat + lc.toNat) % 2 ^ 16 - (14 + vb.length + lc.toNat) = 0 := by omega
+  rw [this] at hbs
+  simpa [zeros] using hbs
+
+/-- an Ethernet frame of package protocol with any payload (any nesting): 6-byte addresses ⇒ the 14 (18) header bytes
+    followed by exactly the payload's encoding -/
+theorem ethernet_intact (del : V) (dst src : Bytes) (vlan : V) (et : Nat) (dat : V) (bs : Bytes) (v2 : V)
+    (h : PEthernet.marshalM (.obj "p.Ethernet" [del, .bytes dst, .bytes src, vlan, .num et, dat]) = .ok (bs, v2))
+    (hn : dat.isNil = false) (hdst : dst.length = 6) (hsrc : src.length = 6) (hsb : SmallBuf dat) :
+    ∃ lc dat1 b dat2 vb, protoAnyLenM dat = .ok (lc, dat1) ∧ protoAnyMarshalM dat1 = .ok (b, dat2) ∧ EthTag vlan vb ∧
+      bs = dst ++ src ++ vb ++ be16 (n16 et) ++ b :=
+  ethernet_intactW _ _ del dst src vlan et dat bs v2 h hn (protoAny_nonNil _) hdst hsrc (protoAny_sizeAfter _ dat hsb)
+
+/-- a frame without payload: the header alone -/
+theorem ethernet_nil (L : V → R (UInt16 × V)) (M : V → R (Bytes × V)) (del : V) (dst src : Bytes) (vlan : V) (et : Nat)
+    (bs : Bytes) (v2 : V)
+    (h : PEthernet.marshalW L M (.obj "p.Ethernet" [del, .bytes dst, .bytes src, vlan, .num et, .nil]) = .ok (bs, v2)) :
+    ∃ vb, EthTag vlan vb ∧ bs = cutPad (dst ++ src ++ vb ++ be16 (n16 et)) (Rep.PEthernet.base vlan).toNat := by
+  unfold PEthernet.marshalW at h
+  rw [Rep.PEthernet.lenW_nil L _ _ _ _ _ _ rfl] at h
+  simp only [Res.bind_ok] at h
+  by_cases ht : PVLAN.vid vlan ≠ 0
+  · rw [if_pos ht] at h
+    obtain ⟨vb, hvb, h⟩ := bind_ok_inv _ _ _ h
+    obtain ⟨buf, hbuf, h⟩ := bind_ok_inv _ _ _ h
+    simp only [V.isNil, if_true] at h
+    cases h
+    rw [if_pos ht] at hbuf
+    refine ⟨vb, by unfold EthTag; rw [if_pos ht]; simp [PVLAN.marshalM, hvb, same], ?_⟩
+    rw [fill_cutPad _ _ _ (by
+      intro p hp
+      simp only [List.mem_append, List.mem_cons, List.not_mem_nil, or_false] at hp
+      rcases hp with ((rfl | rfl) | rfl) | rfl <;> trivial) hbuf]
+    simp [piecesBytes, Piece.bytes, pCopy, pU16]
+  · rw [if_neg ht] at h
+    obtain ⟨buf, hbuf, h⟩ := bind_ok_inv _ _ _ h
+    simp only [V.isNil, if_true] at h
+    cases h
+    rw [if_neg ht] at hbuf
+    refine ⟨[], by unfold EthTag; rw [if_neg ht], ?_⟩
+    rw [fill_cutPad _ _ _ (by
+      intro p hp
+      simp only [List.mem_append, List.mem_cons, List.not_mem_nil, or_false, List.append_nil] at hp
+      rcases hp with (rfl | rfl) | rfl <;> trivial) hbuf]
+    simp [piecesBytes, Piece.bytes, pCopy, pU16]
+
+/-- the condition is necessary (short address): a 4-byte destination — Len() still counts 6, so the frame is 2 bytes
+    shorter than reported, 2 zero bytes follow the payload and every field sits 2 bytes early -/
+theorem ethernet_short_addr :
+    ∃ v2, PEthernet.marshalM (.obj "p.Ethernet" [.num 0, .bytes [1, 2, 3, 4], .bytes [11, 12, 13, 14, 15, 16], PVLAN.zero,
+      .num 0x0800, UBuffer.mk [0xaa, 0xbb]]) = .ok ([1, 2, 3, 4, 11, 12, 13, 14, 15, 16, 8, 0, 0xaa, 0xbb, 0, 0], v2) :=
+  ⟨_, rfl⟩
+
+/-! ### IPv4 → options, payload.  Condition: IHL·4 = 20 + |options| -/
+
+/-- without payload, EVERY value: the first `IHL·4` bytes of `fixed 20 bytes ++ options` (zero-padded); the stored IHL is
+    the one Len() leaves (at least 5) -/
+theorem ipv4_embed_nilW (L : V → R (UInt16 × V)) (M : V → R (Bytes × V)) (ver ihl dscp ecn ln ident fl fo ttl pr cs : Nat)
+    (src dst : Bytes) (opts : V) (bs : Bytes) (v2 : V)
+    (h : PIPv4.marshalW L M (.obj "p.IPv4" [.num ver, .num ihl, .num dscp, .num ecn, .num ln, .num ident, .num fl, .num fo,
+      .num ttl, .num pr, .num cs, .bytes src, .bytes dst, opts, .nil]) = .ok (bs, v2)) :
+    ∃ ob, UBuffer.marshalM opts = .ok (ob, opts) ∧
+      bs = cutPad (ipv4Header ver (PIPv4.fixIHL (n8 ihl)) dscp ecn ln ident fl fo ttl pr cs src dst ++ ob)
+        (PIPv4.hdrLen (PIPv4.fixIHL (n8 ihl))).toNat := by
+  unfold PIPv4.marshalW at h
+  rw [Rep.PIPv4.lenW_nil L _ _ _ _ _ _ _ _ _ _ _ _ _ _ _ rfl] at h
+  simp only [Res.bind_ok, V.u8] at h
+  obtain ⟨ob, hob, h⟩ := bind_ok_inv _ _ _ h
+  obtain ⟨buf, hbuf, h⟩ := bind_ok_inv _ _ _ h
+  simp only [V.isNil, if_true] at h
+  cases h
+  have hn8 : n8 (PIPv4.fixIHL (n8 ihl)).toNat = PIPv4.fixIHL (n8 ihl) := by simp [n8]
+  rw [hn8] at hbuf
+  have hbuf : fill _ (ipv4Pre ver (PIPv4.fixIHL (n8 ihl)) dscp ecn ln ident fl fo ttl pr cs src dst ob) = .ok bs := hbuf
+  obtain ⟨hpb, htight, _⟩ := ipv4_pre ver (PIPv4.fixIHL (n8 ihl)) dscp ecn ln ident fl fo ttl pr cs src dst ob
+  refine ⟨ob, by simp [UBuffer.marshalM, hob, same], ?_⟩
+  rw [fill_cutPad _ _ _ htight hbuf, hpb]
+
+/-- with a payload, EVERY value, ANY payload functions: the first `IHL·4 + payload Len()` bytes of
+    `fixed 20 bytes ++ options ++ payload encoding` (zero-padded); the payload started inside the buffer -/
+theorem ipv4_embedW (L : V → R (UInt16 × V)) (M : V → R (Bytes × V)) (ver ihl dscp ecn ln ident fl fo ttl pr cs : Nat)
+    (src dst : Bytes) (opts dat : V) (bs : Bytes) (v2 : V)
+    (h : PIPv4.marshalW L M (.obj "p.IPv4" [.num ver, .num ihl, .num dscp, .num ecn, .num ln, .num ident, .num fl, .num fo,
+      .num ttl, .num pr, .num cs, .bytes src, .bytes dst, opts, dat]) = .ok (bs, v2))
+    (hn : dat.isNil = false) (hnn : ∀ x l x1, L x = .ok (l, x1) → x1.isNil = false) :
+    ∃ lc dat1 b dat2 ob, L dat = .ok (lc, dat1) ∧ M dat1 = .ok (b, dat2) ∧ UBuffer.marshalM opts = .ok (ob, opts) ∧
+      20 + ob.length ≤ (PIPv4.hdrLen (PIPv4.fixIHL (n8 ihl)) + lc).toNat ∧
+      bs = cutPad (ipv4Header ver (PIPv4.fixIHL (n8 ihl)) dscp ecn ln ident fl fo ttl pr cs src dst ++ ob ++ b)
+        (PIPv4.hdrLen (PIPv4.fixIHL (n8 ihl)) + lc).toNat := by
+  unfold PIPv4.marshalW at h
+  rw [Rep.PIPv4.lenW_obj L _ _ _ _ _ _ _ _ _ _ _ _ _ _ _ hn] at h
+  obtain ⟨⟨l, v1⟩, hlen, h⟩ := bind_ok_inv _ _ _ h
+  obtain ⟨⟨lc, dat1⟩, hL, hlen⟩ := bind_ok_inv _ _ _ hlen
+  cases hlen
+  have hn1 := hnn dat lc dat1 hL
+  simp only [V.u8] at h
+  obtain ⟨ob, hob, h⟩ := bind_ok_inv _ _ _ h
+  obtain ⟨buf, hbuf, h⟩ := bind_ok_inv _ _ _ h
+  rw [if_neg (by simp [hn1])] at h
+  obtain ⟨⟨b, dat2⟩, hM, h⟩ := bind_ok_inv _ _ _ h
+  obtain ⟨out, hout, h⟩ := bind_ok_inv _ _ _ h
+  cases h
+  have hn8 : n8 (PIPv4.fixIHL (n8 ihl)).toNat = PIPv4.fixIHL (n8 ihl) := by simp [n8]
+  rw [hn8] at hbuf hout
+  have hbuf : fill _ (ipv4Pre ver (PIPv4.fixIHL (n8 ihl)) dscp ecn ln ident fl fo ttl pr cs src dst ob) = .ok buf := hbuf
+  have hout : fillFrom buf (piecesLen (ipv4Pre ver (PIPv4.fixIHL (n8 ihl)) dscp ecn ln ident fl fo ttl pr cs src dst ob))
+    [pCopy b] = .ok bs := hout
+  obtain ⟨hpb, htight, hplen⟩ := ipv4_pre ver (PIPv4.fixIHL (n8 ihl)) dscp ecn ln ident fl fo ttl pr cs src dst ob
+  have hall := fill_then _ _ _ _ _ hbuf hout
+  have hstart := fill_start_le _ _ (pCopy b) [] _ hall (by intro k; simp [pCopy])
+  rw [hplen] at hstart
+  refine ⟨lc, dat1, b, dat2, ob, hL, hM, by simp [UBuffer.marshalM, hob, same], hstart, ?_⟩
+  have htight' : ∀ p ∈ ipv4Pre ver (PIPv4.fixIHL (n8 ihl)) dscp ecn ln ident fl fo ttl pr cs src dst ob ++ [pCopy b], p.Tight := by
+    intro p hp
+    simp only [List.mem_append, List.mem_cons, List.not_mem_nil, or_false] at hp
+    rcases hp with hp | rfl
+    · exact htight p hp
+    · trivial
+  rw [fill_cutPad _ _ _ htight' hall, piecesBytes_append, hpb]
+  simp [piecesBytes, Piece.bytes, pCopy]
+
+/-- IHL·4 = 20 + |options| and a payload whose encoding has the size it reports ⇒ header ++ options ++ payload -/
+theorem ipv4_intactW (L : V → R (UInt16 × V)) (M : V → R (Bytes × V)) (ver ihl dscp ecn ln ident fl fo ttl pr cs : Nat)
+    (src dst : Bytes) (opts dat : V) (bs : Bytes) (v2 : V)
+    (h : PIPv4.marshalW L M (.obj "p.IPv4" [.num ver, .num ihl, .num dscp, .num ecn, .num ln, .num ident, .num fl, .num fo,
+      .num ttl, .num pr, .num cs, .bytes src, .bytes dst, opts, dat]) = .ok (bs, v2))
+    (hn : dat.isNil = false) (hnn : ∀ x l x1, L x = .ok (l, x1) → x1.isNil = false)
+    (hc : SizeAfter L M dat)
+    (hihl : ∀ ob, UBuffer.content opts = .ok ob → (PIPv4.hdrLen (PIPv4.fixIHL (n8 ihl))).toNat = 20 + ob.length) :
+    ∃ lc dat1 b dat2 ob, L dat = .ok (lc, dat1) ∧ M dat1 = .ok (b, dat2) ∧ UBuffer.marshalM opts = .ok (ob, opts) ∧
+      bs = ipv4Header ver (PIPv4.fixIHL (n8 ihl)) dscp ecn ln ident fl fo ttl pr cs src dst ++ ob ++ b := by
+  obtain ⟨lc, dat1, b, dat2, ob, hL, hM, hob, hstart, hbs⟩ :=
+    ipv4_embedW L M ver ihl dscp ecn ln ident fl fo ttl pr cs src dst opts dat bs v2 h hn hnn
+  refine ⟨lc, dat1, b, dat2, ob, hL, hM, hob, ?_⟩
+  have hb := hc lc dat1 b dat2 hL hM
+  have hob' : UBuffer.content opts = .ok ob := by
+    simp only [UBuffer.marshalM] at hob
+    obtain ⟨c, hc', hob⟩ := bind_ok_inv _ _ _ hob
+    obtain ⟨e, _⟩ := same_ok _ _ _ _ hob
+    subst e; exact hc'
+  have hi := hihl ob hob'
+  rw [hbs]
+  apply cutPad_eq_of_length
+  simp only [List.length_append, ipv4Header_length, hb]
+  rw [UInt16.toNat_add] at hstart ⊢
+  have := lc.toNat_lt
+  have := (PIPv4.hdrLen (PIPv4.fixIHL (n8 ihl))).toNat_lt
+  omega
+
+/-- … without payload -/
+theorem ipv4_intact_nilW (L : V → R (UInt16 × V)) (M : V → R (Bytes × V)) (ver ihl dscp ecn ln ident fl fo ttl pr cs : Nat)
+    (src dst : Bytes) (opts : V) (bs : Bytes) (v2 : V)
+    (h : PIPv4.marshalW L M (.obj "p.IPv4" [.num ver, .num ihl, .num dscp, .num ecn, .num ln, .num ident, .num fl, .num fo,
+      .num ttl, .num pr, .num cs, .bytes src, .bytes dst, opts, .nil]) = .ok (bs, v2))
+    (hihl : ∀ ob, UBuffer.content opts = .ok ob → (PIPv4.hdrLen (PIPv4.fixIHL (n8 ihl))).toNat = 20 + ob.length) :
+    ∃ ob, UBuffer.marshalM opts = .ok (ob, opts) ∧
+      bs = ipv4Header ver (PIPv4.fixIHL (n8 ihl)) dscp ecn ln ident fl fo ttl pr cs src dst ++ ob := by
+  obtain ⟨ob, hob, hbs⟩ := ipv4_embed_nilW L M ver ihl dscp ecn ln ident fl fo ttl pr cs src dst opts bs v2 h
+  refine ⟨ob, hob, ?_⟩
+  have hob' : UBuffer.content opts = .ok ob := by
+    simp only [UBuffer.marshalM] at hob
+    obtain ⟨c, hc', hob⟩ := bind_ok_inv _ _ _ hob
+    obtain ⟨e, _⟩ := same_ok _ _ _ _ hob
+    subst e; exact hc'
+  rw [hbs]
+  apply cutPad_eq_of_length
+  simp only [List.length_append, ipv4Header_length, hihl ob hob']
+
+/-- an IPv4 packet of package protocol with any payload, in the familiar form: 5 ≤ IHL and IHL·4 = 20 + |options| ⇒
+    the 20 fixed bytes, the complete options, the complete payload encoding -/
+theorem ipv4_intact (ver ihl dscp ecn ln ident fl fo ttl pr cs : Nat) (src dst ob : Bytes) (dat : V) (bs : Bytes) (v2 : V)
+    (h : PIPv4.marshalM (.obj "p.IPv4" [.num ver, .num ihl, .num dscp, .num ecn, .num ln, .num ident, .num fl, .num fo,
+      .num ttl, .num pr, .num cs, .bytes src, .bytes dst, UBuffer.mk ob, dat]) = .ok (bs, v2))
+    (hn : dat.isNil = false) (hsb : SmallBuf dat) (h5 : 5 ≤ ihl) (h63 : ihl ≤ 63) (hihl : ihl * 4 = 20 + ob.length) :
+    ∃ lc dat1 b dat2, protoAnyLenM dat = .ok (lc, dat1) ∧ protoAnyMarshalM dat1 = .ok (b, dat2) ∧
+      bs = ipv4Header ver (n8 ihl) dscp ecn ln ident fl fo ttl pr cs src dst ++ ob ++ b := by
+  obtain ⟨lc, dat1, b, dat2, ob', hL, hM, hob, hbs⟩ := ipv4_intactW protoAnyLenM protoAnyMarshalM ver ihl dscp ecn ln ident fl
+    fo ttl pr cs src dst (UBuffer.mk ob) dat bs v2 h hn (protoAny_nonNil _) (protoAny_sizeAfter _ dat hsb)
+    (fun ob' hob' => by cases hob'; exact ipv4_hdrLen_of ihl ob.length h5 h63 hihl)
+  cases hob
+  have hfix : PIPv4.fixIHL (n8 ihl) = n8 ihl := by
+    unfold PIPv4.fixIHL
+    rw [if_neg]
+    rw [UInt8.lt_iff_toNat_lt]
+    have e : (n8 ihl).toNat = ihl := by simp [n8]; omega
+    rw [e]
+    show ¬ ihl < 5
+    omega
+  rw [hfix] at hbs
+  exact ⟨lc, dat1, b, dat2, hL, hM, hbs⟩
+
+/-- IHL 7 with 8 option bytes and a UDP payload: hypotheses satisfiable, and the packet is header, options, datagram -/
+example : ∃ bs v2, PIPv4.marshalM (.obj "p.IPv4" [.num 4, .num 7, .num 0, .num 0, .num 40, .num 1, .num 2, .num 0,
+      .num 64, .num 17, .num 0, .bytes [10, 0, 0, 1], .bytes [10, 0, 0, 2], UBuffer.mk [1, 1, 1, 1, 1, 1, 1, 0],
+      .obj "p.UDP" [.num 53, .num 53, .num 12, .num 0, .bytes [9, 8, 7, 6]]]) = .ok (bs, v2) ∧ 7 * 4 = 20 + 8 ∧
+    bs = [0x47, 0, 0, 40, 0, 1, 0x40, 0, 64, 17, 0, 0, 10, 0, 0, 1, 10, 0, 0, 2] ++ [1, 1, 1, 1, 1, 1, 1, 0]
+      ++ [0, 53, 0, 53, 0, 12, 0, 0, 9, 8, 7, 6] :=
+  ⟨_, _, rfl, rfl, rfl⟩
+
+/-- the condition is necessary (IHL too small, no payload): IHL 5 with 8 option bytes — the options are not in the
+    encoding at all -/
+theorem ipv4_cut_options :
+    ∃ v2, PIPv4.marshalM (.obj "p.IPv4" [.num 4, .num 5, .num 0, .num 0, .num 28, .num 1, .num 2, .num 0,
+      .num 64, .num 17, .num 0, .bytes [10, 0, 0, 1], .bytes [10, 0, 0, 2], UBuffer.mk [1, 1, 1, 1, 1, 1, 1, 0], .nil])
+      = .ok ([0x45, 0, 0, 28, 0, 1, 0x40, 0, 64, 17, 0, 0, 10, 0, 0, 1, 10, 0, 0, 2], v2) := ⟨_, rfl⟩
+
+/-- … with a payload: IHL 5, 8 option bytes, a 12-byte UDP datagram — the options are there, the datagram's last 8
+    bytes (checksum and all the data) are cut off -/
+theorem ipv4_cut_payload :
+    ∃ v2, PIPv4.marshalM (.obj "p.IPv4" [.num 4, .num 5, .num 0, .num 0, .num 40, .num 1, .num 2, .num 0,
+      .num 64, .num 17, .num 0, .bytes [10, 0, 0, 1], .bytes [10, 0, 0, 2], UBuffer.mk [1, 1, 1, 1, 1, 1, 1, 0],
+      .obj "p.UDP" [.num 53, .num 53, .num 12, .num 0xabcd, .bytes [9, 8, 7, 6]]])
+      = .ok ([0x45, 0, 0, 40, 0, 1, 0x40, 0, 64, 17, 0, 0, 10, 0, 0, 1, 10, 0, 0, 2] ++ [1, 1, 1, 1, 1, 1, 1, 0]
+          ++ [0, 53, 0, 53], v2) := ⟨_, rfl⟩
+
+/-- (IHL too large) IHL 6 without options: the payload is complete but starts at byte 20 instead of 24 and 4 zero bytes
+    follow it -/
+theorem ipv4_shifted_payload :
+    ∃ v2, PIPv4.marshalM (.obj "p.IPv4" [.num 4, .num 6, .num 0, .num 0, .num 28, .num 1, .num 2, .num 0,
+      .num 64, .num 1, .num 0, .bytes [10, 0, 0, 1], .bytes [10, 0, 0, 2], UBuffer.mk [],
+      .obj "p.ICMP" [.num 8, .num 0, .num 0, .bytes []]])
+      = .ok ([0x46, 0, 0, 28, 0, 1, 0x40, 0, 64, 1, 0, 0, 10, 0, 0, 1, 10, 0, 0, 2] ++ [8, 0, 0, 0] ++ [0, 0, 0, 0], v2) :=
+  ⟨_, rfl⟩
+
+/-- the 16-bit size limit, seen from the container: an IPv4 packet carrying a Buffer of 65536 + k bytes reports
+    20 + k bytes and its encoding holds only the FIRST k bytes of the Buffer — silently (`copy` cuts).  This is the
+    counterpart of `buffer_size_counterexample`; `SmallBuf` in the theorems above excludes exactly this. -/
+theorem ipv4_big_buffer_truncated (c : Bytes) (k : Nat) (hk : c.length = 65536 + k) (hk' : k < 65516) (bs : Bytes) (v2 : V)
+    (h : PIPv4.marshalM (.obj "p.IPv4" [.num 4, .num 5, .num 0, .num 0, .num 0, .num 0, .num 0, .num 0,
+      .num 64, .num 253, .num 0, .bytes [10, 0, 0, 1], .bytes [10, 0, 0, 2], UBuffer.mk [], UBuffer.mk c]) = .ok (bs, v2)) :
+    bs = ipv4Header 4 5 0 0 0 0 0 0 64 253 0 [10, 0, 0, 1] [10, 0, 0, 2] ++ c.take k := by
+  obtain ⟨lc, dat1, b, dat2, ob, hL, hM, hob, _, hbs⟩ := ipv4_embedW protoAnyLenM protoAnyMarshalM 4 5 0 0 0 0 0 0 64 253 0
+    [10, 0, 0, 1] [10, 0, 0, 2] (UBuffer.mk []) (UBuffer.mk c) bs v2 h rfl (protoAny_nonNil _)
+  cases hob
+  have hL' : protoAnyLenM (UBuffer.mk c) = .ok (n16 c.length, UBuffer.mk c) := rfl
+  rw [hL'] at hL
+  cases hL
+  have hM' : protoAnyMarshalM (UBuffer.mk c) = .ok (c, UBuffer.mk c) := rfl
+  rw [hM'] at hM
+  cases hM
+  have hfix : PIPv4.fixIHL (n8 5) = 5 := rfl
+  rw [hfix] at hbs
+  have hlen : (PIPv4.hdrLen 5 + n16 c.length).toNat = 20 + k := by
+    rw [UInt16.toNat_add]
+    have : (n16 c.length).toNat = k := by simp only [n16, UInt16.toNat_ofNat', hk]; omega
+    rw [this]
+    show (20 + k) % 2 ^ 16 = 20 + k
+    omega
+  rw [hbs, hlen]
+  unfold cutPad
+  simp only [List.append_nil]
+  rw [List.take_append, ipv4Header_length]
+  have e1 : (ipv4Header 4 5 0 0 0 0 0 0 64 253 0 [10, 0, 0, 1] [10, 0, 0, 2]).take (20 + k)
+      = ipv4Header 4 5 0 0 0 0 0 0 64 253 0 [10, 0, 0, 1] [10, 0, 0, 2] :=
+    List.take_of_length_le (by rw [ipv4Header_length]; omega)
+  rw [e1]
+  simp only [List.length_append, ipv4Header_length, hk]
+  have e2 : 20 + k - (20 + (65536 + k)) = 0 := by omega
+  have e3 : 20 + k - 20 = k := by omega
+  rw [e2, e3]
+  simp [zeros]
+
+/-! ### IPv6 → extension headers, payload.
+    Len() counts the extension headers that are PRESENT (non-nil); the encoder writes the ones the NextHeader CHAIN
+    visits (`PIPv6.extChain`: start at the packet's NextHeader; 0 → hop-by-hop, 43 → routing, 44 → fragment, each
+    continuing with its own NextHeader; anything else ends the chain).
+    Condition: the chain visits headers whose sizes add up to what Len() counted. -/
+
+/-- every entry of the encoder's chain is the own encoding of one of the three extension headers of the value -/
+theorem extChain_mem (hbh rt fr : V) : ∀ (f : Nat) (nxt : UInt8) (chain : List Bytes),
+    PIPv6.extChain hbh rt fr f nxt = .ok chain →
+    ∀ c ∈ chain, PHopByHop.marshalM hbh = .ok (c, hbh) ∨ PRouting.marshalM rt = .ok (c, rt) ∨ PFragment.marshalM fr = .ok (c, fr) := by
+  intro f
+  induction f with
+  | zero => intro nxt chain h; exact absurd h (by simp [PIPv6.extChain])
+  | succ f ih =>
+    intro nxt chain h c hc
+    unfold PIPv6.extChain at h
+    split at h
+    · obtain ⟨nx, _, h⟩ := bind_ok_inv _ _ _ h
+      obtain ⟨b, hb, h⟩ := bind_ok_inv _ _ _ h
+      obtain ⟨rest, hrest, h⟩ := bind_ok_inv _ _ _ h
+      cases h
+      simp only [List.mem_cons] at hc
+      rcases hc with rfl | hc
+      · left; simp [PHopByHop.marshalM, hb, same]
+      · exact ih nx rest hrest c hc
+    · split at h
+      · obtain ⟨nx, _, h⟩ := bind_ok_inv _ _ _ h
+        obtain ⟨b, hb, h⟩ := bind_ok_inv _ _ _ h
+        obtain ⟨rest, hrest, h⟩ := bind_ok_inv _ _ _ h
+        cases h
+        simp only [List.mem_cons] at hc
+        rcases hc with rfl | hc
+        · right; left; simp [PRouting.marshalM, hb, same]
+        · exact ih nx rest hrest c hc
+      · split at h
+        · obtain ⟨nx, _, h⟩ := bind_ok_inv _ _ _ h
+          obtain ⟨b, hb, h⟩ := bind_ok_inv _ _ _ h
+          obtain ⟨rest, hrest, h⟩ := bind_ok_inv _ _ _ h
+          cases h
+          simp only [List.mem_cons] at hc
+          rcases hc with rfl | hc
+          · right; right; simp [PFragment.marshalM, hb, same]
+          · exact ih nx rest hrest c hc
+        · cases h; exact absurd hc (by simp)
+
+/-- EVERY value with addresses of at most 16 bytes, ANY payload functions: the first Len() bytes of
+    `fixed 40 bytes ++ the visited extension headers' encodings ++ payload encoding` (zero-padded); Len() = 40 + the sizes
+    of the present extension headers + the payload's Len(); the payload started inside the buffer -/
+theorem ipv6_embedW (L : V → R (UInt16 × V)) (M : V → R (Bytes × V)) (ver tc fl ln nh hl : Nat) (src dst : Bytes)
+    (hbh rt fr dat : V) (bs : Bytes) (v2 : V)
+    (h : PIPv6.marshalW L M (.obj "p.IPv6" [.num ver, .num tc, .num fl, .num ln, .num nh, .num hl, .bytes src, .bytes dst,
+      hbh, rt, fr, dat]) = .ok (bs, v2))
+    (hs : src.length ≤ 16) (hd : dst.length ≤ 16) (hnn : ∀ x l x1, L x = .ok (l, x1) → x1.isNil = false) :
+    ∃ l1 l2 l3 lc dat1 chain b dat2,
+      PIPv6.optLen PHopByHop.len hbh = .ok l1 ∧ PIPv6.optLen PRouting.len rt = .ok l2 ∧
+      PIPv6.optLen PFragment.len fr = .ok l3 ∧ L dat = .ok (lc, dat1) ∧
+      PIPv6.extChain hbh rt fr ((40 + l1 + l2 + l3 + lc).toNat / 8 + 2) (n8 nh) = .ok chain ∧
+      M dat1 = .ok (b, dat2) ∧
+      40 + chain.flatten.length ≤ (40 + l1 + l2 + l3 + lc).toNat ∧
+      bs = cutPad (ipv6Header ver tc fl ln nh hl src dst ++ chain.flatten ++ b) (40 + l1 + l2 + l3 + lc).toNat := by
+  unfold PIPv6.marshalW at h
+  obtain ⟨⟨l, v1⟩, hlen, h⟩ := bind_ok_inv _ _ _ h
+  obtain ⟨l1, l2, l3, lc, dat1, h1, h2, h3, hL, el, ev⟩ := Rep.PIPv6.lenW_inv L _ _ _ _ _ _ _ _ _ _ _ _ l v1 hlen
+  subst el; subst ev
+  have hn1 := hnn dat lc dat1 hL
+  simp only at h
+  obtain ⟨_, _, h⟩ := bind_ok_inv _ _ _ h
+  obtain ⟨chain, hchain, h⟩ := bind_ok_inv _ _ _ h
+  obtain ⟨buf, hbuf, h⟩ := bind_ok_inv _ _ _ h
+  rw [if_neg (by simp [hn1])] at h
+  obtain ⟨⟨b, dat2⟩, hM, h⟩ := bind_ok_inv _ _ _ h
+  obtain ⟨out, hout, h⟩ := bind_ok_inv _ _ _ h
+  cases h
+  have hbuf : fill _ (ipv6Pre ver tc fl ln nh hl src dst ++ chain.map pCopy ++ [pCopy []]) = .ok buf := hbuf
+  have hout : fillFrom buf (piecesLen (ipv6Pre ver tc fl ln nh hl src dst ++ chain.map pCopy ++ [pCopy []])) [pCopy b]
+    = .ok bs := hout
+  obtain ⟨hpb, htight, hplen⟩ := ipv6_pre ver tc fl ln nh hl src dst hs hd
+  have hall := fill_then _ _ _ _ _ hbuf hout
+  have hstart := fill_start_le _ _ (pCopy b) [] _ hall (by intro k; simp [pCopy])
+  have hcopy : (chain.map pCopy) = chain.map Piece.copy := rfl
+  have hpl2 : piecesLen (ipv6Pre ver tc fl ln nh hl src dst ++ chain.map pCopy ++ [pCopy []]) = 40 + chain.flatten.length := by
+    rw [piecesLen_append, piecesLen_append, hplen, hcopy,
+      piecesLen_eq_bytes _ (tight_map_copy chain), piecesBytes_map_copy]
+    simp [piecesLen, pCopy, Piece.adv]
+  rw [hpl2] at hstart
+  refine ⟨l1, l2, l3, lc, dat1, chain, b, dat2, h1, h2, h3, hL, hchain, hM, hstart, ?_⟩
+  have htight' : ∀ p ∈ ipv6Pre ver tc fl ln nh hl src dst ++ chain.map pCopy ++ [pCopy []] ++ [pCopy b], p.Tight := by
+    intro p hp
+    simp only [List.mem_append, List.mem_cons, List.not_mem_nil, or_false] at hp
+    rcases hp with ((hp | hp) | rfl) | rfl
+    · exact htight p hp
+    · exact tight_map_copy chain p hp
+    · trivial
+    · trivial
+  rw [fill_cutPad _ _ _ htight' hall, piecesBytes_append, piecesBytes_append, piecesBytes_append, hpb, hcopy,
+    piecesBytes_map_copy]
+  simp [piecesBytes, Piece.bytes, pCopy]
+
+/-- the next-header chain visits extension headers whose sizes add up to what Len() counted (the sizes of the
+    headers that are present) and the payload's encoding has the size it reports ⇒
+    fixed header ++ the visited extension headers' encodings ++ payload, nothing else -/
+theorem ipv6_intactW (L : V → R (UInt16 × V)) (M : V → R (Bytes × V)) (ver tc fl ln nh hl : Nat) (src dst : Bytes)
+    (hbh rt fr dat : V) (bs : Bytes) (v2 : V)
+    (h : PIPv6.marshalW L M (.obj "p.IPv6" [.num ver, .num tc, .num fl, .num ln, .num nh, .num hl, .bytes src, .bytes dst,
+      hbh, rt, fr, dat]) = .ok (bs, v2))
+    (hs : src.length ≤ 16) (hd : dst.length ≤ 16) (hnn : ∀ x l x1, L x = .ok (l, x1) → x1.isNil = false)
+    (hc : SizeAfter L M dat)
+    (l1 l2 l3 : UInt16) (h1 : PIPv6.optLen PHopByHop.len hbh = .ok l1) (h2 : PIPv6.optLen PRouting.len rt = .ok l2)
+    (h3 : PIPv6.optLen PFragment.len fr = .ok l3)
+    (f : Nat) (chain : List Bytes) (hch : PIPv6.extChain hbh rt fr f (n8 nh) = .ok chain)
+    (hcons : chain.flatten.length = l1.toNat + l2.toNat + l3.toNat) :
+    ∃ lc dat1 b dat2, L dat = .ok (lc, dat1) ∧ M dat1 = .ok (b, dat2) ∧
+      bs = ipv6Header ver tc fl ln nh hl src dst ++ chain.flatten ++ b := by
+  obtain ⟨l1', l2', l3', lc, dat1, chain', b, dat2, h1', h2', h3', hL, hch', hM, hstart, hbs⟩ :=
+    ipv6_embedW L M ver tc fl ln nh hl src dst hbh rt fr dat bs v2 h hs hd hnn
+  rw [h1] at h1'; rw [h2] at h2'; rw [h3] at h3'
+  cases h1'; cases h2'; cases h3'
+  have := extChain_agree hbh rt fr _ _ _ _ _ hch hch'
+  subst this
+  refine ⟨lc, dat1, b, dat2, hL, hM, ?_⟩
+  have hb := hc lc dat1 b dat2 hL hM
+  have b1 := optLen_hbh_le hbh l1 h1
+  have b2 := optLen_rt_le rt l2 h2
+  have b3 := optLen_fr_le fr l3 h3
+  rw [hbs]
+  apply cutPad_eq_of_length
+  simp only [List.length_append, ipv6Header_length, hb, hcons]
+  simp only [UInt16.toNat_add] at hstart ⊢
+  have := lc.toNat_lt
+  have e40 : (40 : UInt16).toNat = 40 := rfl
+  rw [e40] at hstart ⊢
+  rw [hcons] at hstart
+  omega
+
+/-- IPv6 with all three extension headers chained in the canonical order: the fixed header, then each extension
+    header's own encoding, then the payload's -/
+theorem ipv6_intact_all3W (L : V → R (UInt16 × V)) (M : V → R (Bytes × V)) (ver tc fl ln hl : Nat) (src dst : Bytes)
+    (hbh rt fr dat : V) (bs : Bytes) (v2 : V) (x : UInt8)
+    (h : PIPv6.marshalW L M (.obj "p.IPv6" [.num ver, .num tc, .num fl, .num ln, .num 0, .num hl, .bytes src, .bytes dst,
+      hbh, rt, fr, dat]) = .ok (bs, v2))
+    (hs : src.length ≤ 16) (hd : dst.length ≤ 16) (hnn : ∀ x l x1, L x = .ok (l, x1) → x1.isNil = false)
+    (hc : SizeAfter L M dat)
+    (n1 : PHopByHop.nextHeader hbh = .ok 43) (n2 : PRouting.nextHeader rt = .ok 44) (n3 : PFragment.nextHeader fr = .ok x)
+    (h0 : x.toNat ≠ 0) (h43 : x.toNat ≠ 43) (h44 : x.toNat ≠ 44) :
+    ∃ hb rb fb lc dat1 b dat2, PHopByHop.marshalM hbh = .ok (hb, hbh) ∧ PRouting.marshalM rt = .ok (rb, rt) ∧
+      PFragment.marshalM fr = .ok (fb, fr) ∧ L dat = .ok (lc, dat1) ∧ M dat1 = .ok (b, dat2) ∧
+      bs = ipv6Header ver tc fl ln 0 hl src dst ++ hb ++ rb ++ fb ++ b := by
+  obtain ⟨l1, l2, l3, lc, dat1, chain, b, dat2, h1, h2, h3, hL, hch, hM, _, _⟩ :=
+    ipv6_embedW L M ver tc fl ln 0 hl src dst hbh rt fr dat bs v2 h hs hd hnn
+  obtain ⟨hb, rb, fb, hhb, hrb, hfb, hchain⟩ := extChain_hbh_rt_fr_inv hbh rt fr _ x chain hch n1 n2 n3 h0 h43 h44
+  subst hchain
+  obtain ⟨k1, hk1, e1⟩ := PHopByHop.bytes_len hbh hb hhb
+  obtain ⟨k2, hk2, e2⟩ := PRouting.bytes_len rt rb hrb
+  obtain ⟨k3, hk3, e3⟩ := PFragment.bytes_len fr fb hfb
+  obtain ⟨lc', dat1', b', dat2', hL', hM', hbs⟩ := ipv6_intactW L M ver tc fl ln 0 hl src dst hbh rt fr dat bs v2 h hs hd hnn hc
+    k1 k2 k3 (by rw [optLen_of_nextHeader_hbh hbh _ n1, hk1]) (by rw [optLen_of_nextHeader_rt rt _ n2, hk2])
+    (by rw [optLen_of_nextHeader_fr fr _ n3, hk3]) _ [hb, rb, fb] hch (by simp [e1, e2, e3]; omega)
+  refine ⟨hb, rb, fb, lc', dat1', b', dat2', by simp [PHopByHop.marshalM, hhb, same], by simp [PRouting.marshalM, hrb, same],
+    by simp [PFragment.marshalM, hfb, same], hL', hM', ?_⟩
+  rw [hbs]; simp
+
+/-- IPv6 without extension headers -/
+theorem ipv6_intact_plainW (L : V → R (UInt16 × V)) (M : V → R (Bytes × V)) (ver tc fl ln nh hl : Nat) (src dst : Bytes)
+    (dat : V) (bs : Bytes) (v2 : V)
+    (h : PIPv6.marshalW L M (.obj "p.IPv6" [.num ver, .num tc, .num fl, .num ln, .num nh, .num hl, .bytes src, .bytes dst,
+      .nil, .nil, .nil, dat]) = .ok (bs, v2))
+    (hs : src.length ≤ 16) (hd : dst.length ≤ 16) (hnn : ∀ x l x1, L x = .ok (l, x1) → x1.isNil = false)
+    (hc : SizeAfter L M dat)
+    (h0 : (n8 nh).toNat ≠ 0) (h43 : (n8 nh).toNat ≠ 43) (h44 : (n8 nh).toNat ≠ 44) :
+    ∃ lc dat1 b dat2, L dat = .ok (lc, dat1) ∧ M dat1 = .ok (b, dat2) ∧
+      bs = ipv6Header ver tc fl ln nh hl src dst ++ b := by
+  obtain ⟨lc, dat1, b, dat2, hL, hM, hbs⟩ := ipv6_intactW L M ver tc fl ln nh hl src dst .nil .nil .nil dat bs v2 h hs hd hnn hc
+    0 0 0 rfl rfl rfl 1 [] (extChain_plain _ _ _ 0 _ h0 h43 h44) rfl
+  exact ⟨lc, dat1, b, dat2, hL, hM, by simpa using hbs⟩
+
+/-- IPv6 of package protocol, all three extension headers in canonical order, any payload (any nesting) -/
+theorem ipv6_intact_all3 (ver tc fl ln hl : Nat) (src dst : Bytes) (hbh rt fr dat : V) (bs : Bytes) (v2 : V) (x : UInt8)
+    (h : PIPv6.marshalM (.obj "p.IPv6" [.num ver, .num tc, .num fl, .num ln, .num 0, .num hl, .bytes src, .bytes dst,
+      hbh, rt, fr, dat]) = .ok (bs, v2))
+    (hs : src.length ≤ 16) (hd : dst.length ≤ 16) (hsb : SmallBuf dat)
+    (n1 : PHopByHop.nextHeader hbh = .ok 43) (n2 : PRouting.nextHeader rt = .ok 44) (n3 : PFragment.nextHeader fr = .ok x)
+    (h0 : x.toNat ≠ 0) (h43 : x.toNat ≠ 43) (h44 : x.toNat ≠ 44) :
+    ∃ hb rb fb lc dat1 b dat2, PHopByHop.marshalM hbh = .ok (hb, hbh) ∧ PRouting.marshalM rt = .ok (rb, rt) ∧
+      PFragment.marshalM fr = .ok (fb, fr) ∧ protoAnyLenM dat = .ok (lc, dat1) ∧ protoAnyMarshalM dat1 = .ok (b, dat2) ∧
+      bs = ipv6Header ver tc fl ln 0 hl src dst ++ hb ++ rb ++ fb ++ b :=
+  ipv6_intact_all3W _ _ ver tc fl ln hl src dst hbh rt fr dat bs v2 x h hs hd (protoAny_nonNil _)
+    (protoAny_sizeAfter _ dat hsb) n1 n2 n3 h0 h43 h44
+
+/-- IPv6 of package protocol without extension headers -/
+theorem ipv6_intact_plain (ver tc fl ln nh hl : Nat) (src dst : Bytes) (dat : V) (bs : Bytes) (v2 : V)
+    (h : PIPv6.marshalM (.obj "p.IPv6" [.num ver, .num tc, .num fl, .num ln, .num nh, .num hl, .bytes src, .bytes dst,
+      .nil, .nil, .nil, dat]) = .ok (bs, v2))
+    (hs : src.length ≤ 16) (hd : dst.length ≤ 16) (hsb : SmallBuf dat)
+    (h0 : (n8 nh).toNat ≠ 0) (h43 : (n8 nh).toNat ≠ 43) (h44 : (n8 nh).toNat ≠ 44) :
+    ∃ lc dat1 b dat2, protoAnyLenM dat = .ok (lc, dat1) ∧ protoAnyMarshalM dat1 = .ok (b, dat2) ∧
+      bs = ipv6Header ver tc fl ln nh hl src dst ++ b :=
+  ipv6_intact_plainW _ _ ver tc fl ln nh hl src dst dat bs v2 h hs hd (protoAny_nonNil _) (protoAny_sizeAfter _ dat hsb)
+    h0 h43 h44
+
+/-- with 16-byte addresses the fixed header holds the addresses themselves -/
+theorem ipv6Header_v6 (ver tc fl ln nh hl : Nat) (src dst : Bytes) (hs : src.length = 16) (hd : dst.length = 16) :
+    ipv6Header ver tc fl ln nh hl src dst = [PIPv6.packB0 (n8 ver) (n8 tc), PIPv6.packB1 (n8 tc) (n32 fl)]
+      ++ be16 (PIPv6.packLo (n32 fl)) ++ be16 (n16 ln) ++ [n8 nh, n8 hl] ++ src ++ dst := by
+  unfold ipv6Header
+  rw [pFitTo_exact 16 src hs, pFitTo_exact 16 dst hd]
+
+/-- 2001:db8::1 -/
+def exSrc6 : Bytes := [0x20, 1, 0xd, 0xb8, 0, 0, 0, 0, 0, 0, 0, 0, 0, 0, 0, 1]
+/-- 2001:db8::2 -/
+def exDst6 : Bytes := [0x20, 1, 0xd, 0xb8, 0, 0, 0, 0, 0, 0, 0, 0, 0, 0, 0, 2]
+/-- hop-by-hop header: Pad1 + PadN(3), next = routing -/
+def exHbh : V := .obj "p.HopByHopHeader" [.num 43, .num 0, .list [.obj "p.Option" [.num 0, .num 0, .bytes []],
+  .obj "p.Option" [.num 1, .num 3, .bytes [0, 0, 0]]]]
+/-- routing header: 8 bytes, next = fragment -/
+def exRt : V := .obj "p.RoutingHeader" [.num 44, .num 0, .num 0, .num 0, UBuffer.mk [0, 0, 0, 0]]
+/-- fragment header, next = ICMPv6 -/
+def exFr : V := .obj "p.FragmentHeader" [.num 58, .num 0, .num 5, .num 1, .num 0x01020304]
+/-- echo request -/
+def exIcmp : V := .obj "p.ICMP" [.num 128, .num 0, .num 0x1234, .bytes [1, 2, 3, 4]]
+/-- IPv6 with all three extension headers and an ICMPv6 payload -/
+def exIp6 : V := .obj "p.IPv6" [.num 6, .num 0, .num 0, .num 32, .num 0, .num 64, .bytes exSrc6, .bytes exDst6,
+  exHbh, exRt, exFr, exIcmp]
+/-- … in a VLAN-tagged Ethernet frame -/
+def exFrame : V := .obj "p.Ethernet" [.num 0, .bytes [1, 2, 3, 4, 5, 6], .bytes [7, 8, 9, 10, 11, 12],
+  .obj "p.VLAN" [.num 0x8100, .num 3, .num 0, .num 100], .num 0x86dd, exIp6]
+
+/-- IPv6 with all three extension headers: every hypothesis of `ipv6_intact_all3` holds, the packet is
+    40 + 8 + 8 + 8 + 8 = 72 bytes -/
+example : ∃ bs v2, PIPv6.marshalM exIp6 = .ok (bs, v2) ∧ PHopByHop.nextHeader exHbh = .ok 43 ∧
+    PRouting.nextHeader exRt = .ok 44 ∧ PFragment.nextHeader exFr = .ok 58 ∧
+    bs = ipv6Header 6 0 0 32 0 64 exSrc6 exDst6 ++ [43, 0, 0, 1, 3, 0, 0, 0] ++ [44, 0, 0, 0, 0, 0, 0, 0]
+      ++ [58, 0, 0, 41, 1, 2, 3, 4] ++ [128, 0, 0x12, 0x34, 1, 2, 3, 4] ∧ bs.length = 72 :=
+  ⟨_, _, rfl, rfl, rfl, rfl, rfl, rfl⟩
+
+/-- Ethernet(VLAN, IPv6(hop-by-hop, routing, fragment, ICMPv6)): the frame is the 18 header bytes followed by exactly the
+    72 bytes the IPv6 packet's own MarshalBinary() returns — `ethernet_intact` applied to a nested value -/
+example : ∃ bs v2 b v3, PEthernet.marshalM exFrame = .ok (bs, v2) ∧ PIPv6.marshalM exIp6 = .ok (b, v3) ∧
+    bs = [1, 2, 3, 4, 5, 6] ++ [7, 8, 9, 10, 11, 12] ++ [0x81, 0, 0x60, 100] ++ [0x86, 0xdd] ++ b ∧ bs.length = 90 :=
+  ⟨_, _, _, _, rfl, rfl, rfl, rfl⟩
+
+example : SmallBuf exIp6 := smallBuf_of_kind _ (by decide)
+
+/-- the condition is necessary (a present header the chain does not visit): a hop-by-hop header is set but the packet's
+    NextHeader says UDP — Len() counts its 8 bytes, the encoder never writes it: the header is dropped and 8 zero bytes
+    trail the datagram -/
+theorem ipv6_drops_unchained_header :
+    ∃ v2, PIPv6.marshalM (.obj "p.IPv6" [.num 6, .num 0, .num 0, .num 16, .num 17, .num 64, .bytes exSrc6, .bytes exDst6,
+      exHbh, .nil, .nil, .obj "p.UDP" [.num 53, .num 53, .num 8, .num 0, .bytes []]])
+      = .ok (ipv6Header 6 0 0 16 17 64 exSrc6 exDst6 ++ [0, 53, 0, 53, 0, 8, 0, 0] ++ zeros 8, v2) := ⟨_, rfl⟩
+
+/-- the hypothesis "addresses of at most 16 bytes" of `ipv6_embedW` is necessary: an address slice longer than its
+    16-byte window is copied in full and then overwritten by its neighbour — the last 2 bytes of an 18-byte source are
+    replaced by the destination (net.IP is a slice; 16 bytes is the caller's obligation) -/
+theorem ipv6_long_address_overwritten :
+    ∃ v2, PIPv6.marshalM (.obj "p.IPv6" [.num 6, .num 0, .num 0, .num 4, .num 59, .num 64, .bytes (exSrc6 ++ [0xee, 0xff]),
+      .bytes exDst6, .nil, .nil, .nil, UBuffer.mk [1, 2, 3, 4]])
+      = .ok (ipv6Header 6 0 0 4 59 64 exSrc6 exDst6 ++ [1, 2, 3, 4], v2) := ⟨_, rfl⟩
+
+/-! ### DHCP → options (Len / Read; no MarshalBinary).  `PDHCP.readBuf v` is the content of the buffer `Read` assembles;
+    `Read(b)` returns its first `len(b)` bytes. -/
+
+/-- DHCP → options, EVERY value: the buffer Read assembles is the fixed part, then every option's own encoding in
+    order, then the END option unless one is in the list.  Nothing is cut (the buffer grows by `append`). -/
+theorem dhcp_embed (op ht hl ho xid secs fl : Nat) (cip yip sip gip hw sname file : Bytes) (os : List V) (bs : Bytes)
+    (h : PDHCP.readBuf (.obj "p.DHCP" [.num op, .num ht, .num hl, .num ho, .num xid, .num secs, .num fl, .bytes cip,
+      .bytes yip, .bytes sip, .bytes gip, .bytes hw, .bytes sname, .bytes file, .list os]) = .ok bs) :
+    ∃ obs e, mapR PDhcpOpt.marshalOption os = .ok obs ∧ PDHCP.hasEnd os = .ok e ∧
+      bs = dhcpHeader op ht hl ho xid secs fl cip yip sip gip hw sname file ++ obs.flatten ++ (if e then [] else [255]) := by
+  simp only [PDHCP.readBuf] at h
+  obtain ⟨ob, hob, h⟩ := bind_ok_inv _ _ _ h
+  obtain ⟨e, he, h⟩ := bind_ok_inv _ _ _ h
+  obtain ⟨obs, hobs, rfl⟩ := optBytes_eq os ob hob
+  refine ⟨obs, e, hobs, he, ?_⟩
+  cases e with
+  | true => simp only [if_true, Res.bind_ok] at h; cases h; simp [dhcpHeader]
+  | false =>
+    simp only [Bool.false_eq_true, if_false] at h
+    have : PDhcpOpt.marshalOption (PDhcpOpt.mk (n8 Gen.protocol.DHCP_OPT_END) []) = .ok [255] := rfl
+    rw [this] at h
+    simp only [Res.bind_ok] at h
+    cases h; simp [dhcpHeader]
+
+/-- DHCP: the strongest true size statement.  With 4-byte addresses and no PAD / END option in the list, Len() is
+    the number of bytes Read assembles (modulo 2^16).  The full statement is FALSE: `dhcp_size_counterexample_*`. -/
+theorem dhcp_size_partial (op ht hl ho xid secs fl : Nat) (cip yip sip gip hw sname file : Bytes) (os : List V)
+    (l : UInt16) (bs : Bytes)
+    (h1 : PDHCP.len (.obj "p.DHCP" [.num op, .num ht, .num hl, .num ho, .num xid, .num secs, .num fl, .bytes cip,
+      .bytes yip, .bytes sip, .bytes gip, .bytes hw, .bytes sname, .bytes file, .list os]) = .ok l)
+    (h2 : PDHCP.readBuf (.obj "p.DHCP" [.num op, .num ht, .num hl, .num ho, .num xid, .num secs, .num fl, .bytes cip,
+      .bytes yip, .bytes sip, .bytes gip, .bytes hw, .bytes sname, .bytes file, .list os]) = .ok bs)
+    (hc : cip.length = 4) (hy : yip.length = 4) (hs : sip.length = 4) (hg : gip.length = 4) (hp : PlainOpts os) :
+    l.toNat = bs.length % 65536 := by
+  obtain ⟨obs, e, hobs, he, hbs⟩ := dhcp_embed op ht hl ho xid secs fl cip yip sip gip hw sname file os bs h2
+  simp only [PDHCP.len] at h1
+  obtain ⟨ls, hls, h1⟩ := bind_ok_inv _ _ _ h1
+  obtain ⟨e', he', h1⟩ := bind_ok_inv _ _ _ h1
+  cases h1
+  obtain ⟨hend, hsum⟩ := dhcp_opts_size os ls obs hp hls hobs
+  rw [hend] at he he'
+  cases he; cases he'
+  rw [hbs]
+  simp only [List.length_append, dhcpHeader_length, hc, hy, hs, hg, hsum, Bool.false_eq_true, if_false, List.length_cons,
+    List.length_nil]
+  rw [UInt16.toNat_add, UInt16.toNat_add, sum16_toNat_mod]
+  show ((240 + _ % 65536) % 2 ^ 16 + 1) % 2 ^ 16 = _
+  omega
+
+/-- … hence exact whenever the message is below 64 KiB -/
+theorem dhcp_size_partial' (op ht hl ho xid secs fl : Nat) (cip yip sip gip hw sname file : Bytes) (os : List V)
+    (l : UInt16) (bs : Bytes)
+    (h1 : PDHCP.len (.obj "p.DHCP" [.num op, .num ht, .num hl, .num ho, .num xid, .num secs, .num fl, .bytes cip,
+      .bytes yip, .bytes sip, .bytes gip, .bytes hw, .bytes sname, .bytes file, .list os]) = .ok l)
+    (h2 : PDHCP.readBuf (.obj "p.DHCP" [.num op, .num ht, .num hl, .num ho, .num xid, .num secs, .num fl, .bytes cip,
+      .bytes yip, .bytes sip, .bytes gip, .bytes hw, .bytes sname, .bytes file, .list os]) = .ok bs)
+    (hc : cip.length = 4) (hy : yip.length = 4) (hs : sip.length = 4) (hg : gip.length = 4) (hp : PlainOpts os)
+    (hlt : bs.length < 65536) : bs.length = l.toNat := by
+  have := dhcp_size_partial op ht hl ho xid secs fl cip yip sip gip hw sname file os l bs h1 h2 hc hy hs hg hp
+  omega
+
+/-- a DHCP request with 4-byte addresses and the given options -/
+def dhcpEx (os : List V) : V := .obj "p.DHCP" [.num 1, .num 1, .num 6, .num 0, .num 7, .num 0, .num 0, .bytes [10, 0, 0, 1],
+  .bytes [10, 0, 0, 2], .bytes [10, 0, 0, 3], .bytes [10, 0, 0, 4], .bytes [1, 2, 3, 4, 5, 6], .bytes (zeros 64), .bytes (zeros 128),
+  .list os]
+
+/-- an explicit END option: Len() counts 2 bytes for it, Read writes 1 -/
+theorem dhcp_size_counterexample_end :
+    PDHCP.len (dhcpEx [PDhcpOpt.mk 53 [1], PDhcpOpt.mk 255 []]) = .ok 245 ∧
+    ∃ bs, PDHCP.readBuf (dhcpEx [PDhcpOpt.mk 53 [1], PDhcpOpt.mk 255 []]) = .ok bs ∧ bs.length = 244 :=
+  ⟨rfl, _, rfl, by decide +kernel⟩
+
+/-- a PAD option: the same -/
+theorem dhcp_size_counterexample_pad :
+    PDHCP.len (dhcpEx [PDhcpOpt.mk 0 [], PDhcpOpt.mk 53 [1]]) = .ok 246 ∧
+    ∃ bs, PDHCP.readBuf (dhcpEx [PDhcpOpt.mk 0 [], PDhcpOpt.mk 53 [1]]) = .ok bs ∧ bs.length = 245 :=
+  ⟨rfl, _, rfl, by decide +kernel⟩
+
+/-- message type + client id: 240 + 3 + 8 + 1 (END appended) = 252 bytes reported and assembled -/
+example : PDHCP.len (dhcpEx [PDhcpOpt.mk 53 [1], PDhcpOpt.mk 61 [1, 2, 3, 4, 5, 6]]) = .ok 252 ∧
+    ∃ bs, PDHCP.readBuf (dhcpEx [PDhcpOpt.mk 53 [1], PDhcpOpt.mk 61 [1, 2, 3, 4, 5, 6]]) = .ok bs ∧ bs.length = 252 :=
+  ⟨rfl, _, rfl, by decide +kernel⟩
+
+example : PlainOpts [PDhcpOpt.mk 53 [1], PDhcpOpt.mk 61 [1, 2, 3, 4, 5, 6]] := by
+  intro o ho t ht
+  simp only [List.mem_cons, List.not_mem_nil, or_false] at ho
+  rcases ho with rfl | rfl <;> (cases ht; rfl)
+
+/-- a 16-byte address (net.IP of an IPv4 address is usually the 16-byte form): Len() counts 4 bytes, Read writes 16 -/
+theorem dhcp_size_counterexample_ip16 :
+    PDHCP.len (.obj "p.DHCP" [.num 1, .num 1, .num 6, .num 0, .num 7, .num 0, .num 0, .bytes (ipV4Mapped 10 0 0 1),
+      .bytes [0, 0, 0, 0], .bytes [0, 0, 0, 0], .bytes [0, 0, 0, 0], .bytes [1, 2, 3, 4, 5, 6], .bytes (zeros 64), .bytes (zeros 128),
+      .list []]) = .ok 241 ∧
+    ∃ bs, PDHCP.readBuf (.obj "p.DHCP" [.num 1, .num 1, .num 6, .num 0, .num 7, .num 0, .num 0, .bytes (ipV4Mapped 10 0 0 1),
+      .bytes [0, 0, 0, 0], .bytes [0, 0, 0, 0], .bytes [0, 0, 0, 0], .bytes [1, 2, 3, 4, 5, 6], .bytes (zeros 64), .bytes (zeros 128),
+      .list []]) = .ok bs ∧ bs.length = 253 :=
+  ⟨rfl, _, rfl, by decide +kernel⟩
+
+/-! ### LLDP → TLVs (Len / Read; no MarshalBinary).  Len() is the constant 15; Read writes every TLV to the START of the
+    buffer.  Both halves of C06 fail. -/
+
+/-- LLDP.Read into a buffer that could hold everything: every TLV is written to the START of the buffer — the result
+    begins with the chassis TLV (written last, over the port TLV), the TTL TLV is never written, and the returned
+    count is `2·|chassis| + |port|` although at most `max |chassis| |port|` bytes were touched -/
+theorem lldp_read_overwrites (ch pt ttl : V) (b out : Bytes) (n : Nat) (cb pb : Bytes)
+    (h : PLLDP.read (.obj "p.LLDP" [ch, pt, ttl]) b = .ok (out, n))
+    (hcb : PTLV.readBuf "p.ChassisTLV" ch = .ok cb) (hpb : PTLV.readBuf "p.PortTLV" pt = .ok pb)
+    (hfit : cb.length ≤ b.length) :
+    out = copyInto (copyInto (copyInto b cb) pb) cb ∧ out.take cb.length = cb ∧
+      n = cb.length + min b.length pb.length + cb.length ∧ out.length = b.length := by
+  have c3 := tlv_readBuf_length _ _ _ hcb
+  have p3 := tlv_readBuf_length _ _ _ hpb
+  simp only [PLLDP.read, hcb, hpb, Res.bind_ok] at h
+  rw [if_neg (by omega)] at h
+  rw [if_neg (by omega)] at h
+  cases h
+  refine ⟨rfl, ?_, by rw [Nat.min_eq_right hfit], by simp [copyInto_length]⟩
+  exact copyInto_take _ _ (by simp only [copyInto_length]; exact hfit)
+
+/-- what a TLV's Read produces: type/length word, subtype, data — 3 + |data| bytes whatever the Length field says -/
+theorem tlv_read_length (kind : String) (ty ln st : Nat) (d : Bytes) (b : Bytes)
+    (h : PTLV.readBuf kind (.obj kind [.num ty, .num ln, .num st, .bytes d]) = .ok b) :
+    b = be16 (PTLV.packTypeLen (n8 ty) (n16 ln)) ++ [n8 st] ++ d ∧ b.length = 3 + d.length := by
+  simp only [PTLV.readBuf, if_true] at h
+  cases h
+  exact ⟨rfl, by simp; omega⟩
+
+/-- concrete: chassis = MAC address (9 bytes), port = interface name "eth0" (7 bytes), TTL 120 -/
+theorem lldp_size_counterexample :
+    ∃ out, PLLDP.lenM (.obj "p.LLDP" [.obj "p.ChassisTLV" [.num 1, .num 7, .num 4, .bytes [0, 1, 2, 3, 4, 5]],
+        .obj "p.PortTLV" [.num 2, .num 5, .num 5, .bytes [101, 116, 104, 48]], .obj "p.TTLTLV" [.num 3, .num 2, .num 120]])
+        = .ok (15, .obj "p.LLDP" [.obj "p.ChassisTLV" [.num 1, .num 7, .num 4, .bytes [0, 1, 2, 3, 4, 5]],
+        .obj "p.PortTLV" [.num 2, .num 5, .num 5, .bytes [101, 116, 104, 48]], .obj "p.TTLTLV" [.num 3, .num 2, .num 120]]) ∧
+      PLLDP.read (.obj "p.LLDP" [.obj "p.ChassisTLV" [.num 1, .num 7, .num 4, .bytes [0, 1, 2, 3, 4, 5]],
+        .obj "p.PortTLV" [.num 2, .num 5, .num 5, .bytes [101, 116, 104, 48]], .obj "p.TTLTLV" [.num 3, .num 2, .num 120]])
+        (zeros 32) = .ok (out, 25) ∧
+      out = [2, 7, 4, 0, 1, 2, 3, 4, 5] ++ zeros 23 :=
+  ⟨_, rfl, rfl, by decide +kernel⟩
+
+/-! ### composition: the container theorems chain through the interface dispatch -/
+
+/-- Ethernet(IPv4(x)) for ANY payload x: with 6-byte MAC addresses and IHL·4 = 20 + |options| the frame is
+    MAC header ++ [VLAN tag] ++ ethertype ++ IPv4 fixed header ++ options ++ the encoding of x — `ethernet_intact` and
+    `ipv4_intactW` chained through the dispatch (x is handled one level further down: depth budget 15) -/
+theorem ethernet_ipv4_intact (del : V) (dst src : Bytes) (vlan : V) (et : Nat)
+    (ver ihl dscp ecn ln ident fl fo ttl pr cs : Nat) (isrc idst ob : Bytes) (x : V) (bs : Bytes) (v2 : V)
+    (h : PEthernet.marshalM (.obj "p.Ethernet" [del, .bytes dst, .bytes src, vlan, .num et,
+      .obj "p.IPv4" [.num ver, .num ihl, .num dscp, .num ecn, .num ln, .num ident, .num fl, .num fo,
+        .num ttl, .num pr, .num cs, .bytes isrc, .bytes idst, UBuffer.mk ob, x]]) = .ok (bs, v2))
+    (hdst : dst.length = 6) (hsrc : src.length = 6) (hx : x.isNil = false) (hsb : SmallBuf x)
+    (h5 : 5 ≤ ihl) (h63 : ihl ≤ 63) (hihl : ihl * 4 = 20 + ob.length) :
+    ∃ vb lc x1 b x2, EthTag vlan vb ∧ protoAnyLenD 15 x = .ok (lc, x1) ∧ protoAnyMarshalD 15 x1 = .ok (b, x2) ∧
+      bs = dst ++ src ++ vb ++ be16 (n16 et)
+        ++ (ipv4Header ver (n8 ihl) dscp ecn ln ident fl fo ttl pr cs isrc idst ++ ob ++ b) := by
+  obtain ⟨lc0, dat1, b0, dat2, vb, hL0, hM0, hvb, hbs⟩ := ethernet_intact del dst src vlan et _ bs v2 h rfl hdst hsrc
+    (smallBuf_of_kind _ (by show "p.IPv4" ≠ "u.Buffer"; decide))
+  -- the payload's Len() is IPv4.Len() one level down
+  have eL : protoAnyLenM (.obj "p.IPv4" [.num ver, .num ihl, .num dscp, .num ecn, .num ln, .num ident, .num fl, .num fo,
+        .num ttl, .num pr, .num cs, .bytes isrc, .bytes idst, UBuffer.mk ob, x])
+      = PIPv4.lenW (protoAnyLenD 15) (.obj "p.IPv4" [.num ver, .num ihl, .num dscp, .num ecn, .num ln, .num ident, .num fl,
+        .num fo, .num ttl, .num pr, .num cs, .bytes isrc, .bytes idst, UBuffer.mk ob, x]) := rfl
+  rw [eL, Rep.PIPv4.lenW_obj _ _ _ _ _ _ _ _ _ _ _ _ _ _ _ _ hx] at hL0
+  obtain ⟨⟨lc, x1⟩, hLx, hL0⟩ := bind_ok_inv _ _ _ hL0
+  cases hL0
+  have hfix : PIPv4.fixIHL (n8 ihl) = n8 ihl := by
+    unfold PIPv4.fixIHL
+    rw [if_neg]
+    rw [UInt8.lt_iff_toNat_lt]
+    have e : (n8 ihl).toNat = ihl := by simp [n8]; omega
+    rw [e]
+    show ¬ ihl < 5
+    omega
+  have hto : (n8 ihl).toNat = ihl := by simp [n8]; omega
+  simp only [hfix, V.u8, hto] at hM0
+  have eM : protoAnyMarshalM (.obj "p.IPv4" [.num ver, .num ihl, .num dscp, .num ecn, .num ln, .num ident, .num fl, .num fo,
+        .num ttl, .num pr, .num cs, .bytes isrc, .bytes idst, UBuffer.mk ob, x1])
+      = PIPv4.marshalW (protoAnyLenD 15) (protoAnyMarshalD 15) (.obj "p.IPv4" [.num ver, .num ihl, .num dscp, .num ecn,
+        .num ln, .num ident, .num fl, .num fo, .num ttl, .num pr, .num cs, .bytes isrc, .bytes idst, UBuffer.mk ob, x1]) := rfl
+  rw [eM] at hM0
+  have hx1 : x1.isNil = false := protoAny_nonNil 15 x lc x1 hLx
+  have hsb1 : SmallBuf x1 := smallBuf_after_len 15 x lc x1 hsb hLx
+  obtain ⟨lc', x1', b, x2, ob', hL1, hM1, hob, hb0⟩ := ipv4_intactW (protoAnyLenD 15) (protoAnyMarshalD 15) ver ihl dscp ecn
+    ln ident fl fo ttl pr cs isrc idst (UBuffer.mk ob) x1 b0 _ hM0 hx1 (protoAny_nonNil 15)
+    (protoAny_sizeAfter 15 x1 hsb1) (fun ob' hob' => by cases hob'; exact ipv4_hdrLen_of ihl ob.length h5 h63 hihl)
+  cases hob
+  -- the second Len() pass finds what the first left
+  have hidem := ((Rep.protoAny_childOK 15).rep x).lenIdem lc x1 hLx
+  rw [hidem] at hL1
+  cases hL1
+  rw [hfix] at hb0
+  exact ⟨vb, lc, x1, b, x2, hvb, hLx, hM1, by rw [hbs, hb0]⟩
+
+/-- Ethernet(IPv4(UDP)) -/
+example : ∃ bs v2, PEthernet.marshalM (.obj "p.Ethernet" [.num 0, .bytes [1, 2, 3, 4, 5, 6], .bytes [7, 8, 9, 10, 11, 12],
+      PVLAN.zero, .num 0x0800, .obj "p.IPv4" [.num 4, .num 5, .num 0, .num 0, .num 32, .num 1, .num 2, .num 0,
+        .num 64, .num 17, .num 0, .bytes [10, 0, 0, 1], .bytes [10, 0, 0, 2], UBuffer.mk [],
+        .obj "p.UDP" [.num 53, .num 53, .num 12, .num 0, .bytes [9, 8, 7, 6]]]]) = .ok (bs, v2) ∧
+    bs = [1, 2, 3, 4, 5, 6, 7, 8, 9, 10, 11, 12, 8, 0] ++ [0x45, 0, 0, 32, 0, 1, 0x40, 0, 64, 17, 0, 0, 10, 0, 0, 1, 10, 0, 0, 2]
+      ++ [0, 53, 0, 53, 0, 12, 0, 0, 9, 8, 7, 6] :=
+  ⟨_, _, rfl, rfl⟩
 
 end OFV.Props.C06c
